@@ -30,7 +30,10 @@ use shared::*;
 
 use crate::api;
 use crate::table_manager::TableManager;
-use rustybgp_packet::bgp::{Attribute, Capability, FamilyState, HoldTime, Ipv4Net, Ipv6Net, Nexthop, Nlri, Notification, Open, ParsedMessage, ParsedUpdate, PathNlri, PeerCodec};
+use rustybgp_packet::bgp::{
+    Attribute, Capability, FamilyState, HoldTime, Ipv4Net, Ipv6Net, Nexthop, Nlri, Notification,
+    Open, ParsedMessage, ParsedUpdate, PathNlri, PeerCodec,
+};
 use rustybgp_table as table;
 use std::collections::{BTreeMap, BTreeSet};
 use std::net::Ipv6Addr;
@@ -51,8 +54,17 @@ struct Finding {
 }
 
 fn finding(kind: &str, clause: &str, what: &str, detail: String, bytes: &[u8]) -> Finding {
-    let sig = if clause.starts_with("panic/") { format!("C19/{}", clause) } else { format!("C19/bmpd/{}/{}", kind, clause) };
-    Finding { sig, what: what.to_string(), detail, bytes: bytes.to_vec() }
+    let sig = if clause.starts_with("panic/") {
+        format!("C19/{}", clause)
+    } else {
+        format!("C19/bmpd/{}/{}", kind, clause)
+    };
+    Finding {
+        sig,
+        what: what.to_string(),
+        detail,
+        bytes: bytes.to_vec(),
+    }
 }
 
 fn report(rep: &mut Report, f: Finding, input: Json, hseed: u64) {
@@ -64,7 +76,13 @@ fn report(rep: &mut Report, f: Finding, input: Json, hseed: u64) {
     rep.violation(
         &f.sig,
         &f.what,
-        Json::obj(vec![("input", input), ("observed", Json::s(f.detail)), ("emitted_bytes", bytes_json(&f.bytes)), ("history_seed", Json::Int(hseed as i128)), ("seed", Json::Int(rep.params.seed as i128))]),
+        Json::obj(vec![
+            ("input", input),
+            ("observed", Json::s(f.detail)),
+            ("emitted_bytes", bytes_json(&f.bytes)),
+            ("history_seed", Json::Int(hseed as i128)),
+            ("seed", Json::Int(rep.params.seed as i128)),
+        ]),
     );
 }
 
@@ -73,15 +91,33 @@ fn report(rep: &mut Report, f: Finding, input: Json, hseed: u64) {
 #[derive(Clone)]
 enum StMsg {
     Initiation,
-    PeerUp { hdr: PeerHdr, local16: [u8; 16], lport: u16, rport: u16, sent: Open, recv: Open },
-    PeerDown { hdr: PeerHdr, reason: u8, data: Vec<u8> },
-    Route { hdr: PeerHdr, pdu: Vec<u8> },
+    PeerUp {
+        hdr: PeerHdr,
+        local16: [u8; 16],
+        lport: u16,
+        rport: u16,
+        sent: Open,
+        recv: Open,
+    },
+    PeerDown {
+        hdr: PeerHdr,
+        reason: u8,
+        data: Vec<u8>,
+    },
+    Route {
+        hdr: PeerHdr,
+        pdu: Vec<u8>,
+    },
     Other(u8),
 }
 
 /// Structural reading of one BMP message body (the common header was already
 /// consumed by `read_bmp`).  Err(kind, clause, detail).
-fn read_bmp_msg(ps: &mut Parsers, typ: u8, body: &[u8]) -> Result<StMsg, (&'static str, String, String)> {
+fn read_bmp_msg(
+    ps: &mut Parsers,
+    typ: u8,
+    body: &[u8],
+) -> Result<StMsg, (&'static str, String, String)> {
     match typ {
         4 => match read_tlvs(body) {
             Ok(_) => Ok(StMsg::Initiation),
@@ -96,16 +132,35 @@ fn read_bmp_msg(ps: &mut Parsers, typ: u8, body: &[u8]) -> Result<StMsg, (&'stat
             let mut local16 = [0u8; 16];
             local16.copy_from_slice(&body[42..58]);
             if !hdr.v() && local16[..12].iter().any(|x| *x != 0) {
-                return Err((k, "local-address-family".into(), format!("V=0 but the local address {} is not a zero-padded IPv4 address", hex(&local16))));
+                return Err((
+                    k,
+                    "local-address-family".into(),
+                    format!(
+                        "V=0 but the local address {} is not a zero-padded IPv4 address",
+                        hex(&local16)
+                    ),
+                ));
             }
             let lport = u16::from_be_bytes([body[58], body[59]]);
             let rport = u16::from_be_bytes([body[60], body[61]]);
             let (pdus, err) = split_pdus(&body[62..]);
             if pdus.len() < 2 {
-                return Err((k, "open-framing".into(), format!("{} well-framed PDUs where two OPENs are required; framing stops: {:?}", pdus.len(), err)));
+                return Err((
+                    k,
+                    "open-framing".into(),
+                    format!(
+                        "{} well-framed PDUs where two OPENs are required; framing stops: {:?}",
+                        pdus.len(),
+                        err
+                    ),
+                ));
             }
             if pdus[0][18] != 1 || pdus[1][18] != 1 {
-                return Err((k, "open-type".into(), format!("PDU types {} {}", pdus[0][18], pdus[1][18])));
+                return Err((
+                    k,
+                    "open-type".into(),
+                    format!("PDU types {} {}", pdus[0][18], pdus[1][18]),
+                ));
             }
             let used = pdus[0].len() + pdus[1].len();
             if let Err(d) = read_tlvs(&body[62 + used..]) {
@@ -117,14 +172,29 @@ fn read_bmp_msg(ps: &mut Parsers, typ: u8, body: &[u8]) -> Result<StMsg, (&'stat
                     Ok(ParsedMessage::Open(o)) => opens.push(o),
                     Ok(_) => return Err((k, "open-type".into(), "not an OPEN".into())),
                     Err((c, d)) => {
-                        let c = if c.starts_with("panic/") { c } else { format!("{}-{}", if i == 0 { "sent-open" } else { "received-open" }, c) };
+                        let c = if c.starts_with("panic/") {
+                            c
+                        } else {
+                            format!(
+                                "{}-{}",
+                                if i == 0 { "sent-open" } else { "received-open" },
+                                c
+                            )
+                        };
                         return Err((k, c, d));
                     }
                 }
             }
             let recv = opens.pop().unwrap();
             let sent = opens.pop().unwrap();
-            Ok(StMsg::PeerUp { hdr, local16, lport, rport, sent, recv })
+            Ok(StMsg::PeerUp {
+                hdr,
+                local16,
+                lport,
+                rport,
+                sent,
+                recv,
+            })
         }
         2 => {
             let k = "peer-down";
@@ -135,27 +205,46 @@ fn read_bmp_msg(ps: &mut Parsers, typ: u8, body: &[u8]) -> Result<StMsg, (&'stat
             let (reason, data) = (body[42], &body[43..]);
             match reason {
                 1 | 3 => {
-                    one_pdu(data, 3).map_err(|(c, d)| (k, format!("reason-{}/{}", reason, c), d))?;
+                    one_pdu(data, 3)
+                        .map_err(|(c, d)| (k, format!("reason-{}/{}", reason, c), d))?;
                 }
                 2 => {
                     if data.len() != 2 {
-                        return Err((k, "fsm-code".into(), format!("reason 2 data is {} bytes, a 2-byte FSM event code is required", data.len())));
+                        return Err((
+                            k,
+                            "fsm-code".into(),
+                            format!(
+                                "reason 2 data is {} bytes, a 2-byte FSM event code is required",
+                                data.len()
+                            ),
+                        ));
                     }
                 }
                 4 | 5 => {
                     if !data.is_empty() {
-                        return Err((k, "reason-data".into(), format!("reason {} must carry no data, got {}", reason, hex(data))));
+                        return Err((
+                            k,
+                            "reason-data".into(),
+                            format!("reason {} must carry no data, got {}", reason, hex(data)),
+                        ));
                     }
                 }
                 r => return Err((k, "reason-unknown".into(), format!("reason {}", r))),
             }
-            Ok(StMsg::PeerDown { hdr, reason, data: data.to_vec() })
+            Ok(StMsg::PeerDown {
+                hdr,
+                reason,
+                data: data.to_vec(),
+            })
         }
         0 => {
             let k = "route-monitoring";
             let hdr = read_peer_header(body).map_err(|(c, d)| (k, c, d))?;
             let pdu = one_pdu(&body[42..], 2).map_err(|(c, d)| (k, c, d))?;
-            Ok(StMsg::Route { hdr, pdu: pdu.to_vec() })
+            Ok(StMsg::Route {
+                hdr,
+                pdu: pdu.to_vec(),
+            })
         }
         t => Ok(StMsg::Other(t)),
     }
@@ -175,20 +264,35 @@ struct HdrExp {
 
 fn check_hdr(h: &PeerHdr, e: &HdrExp) -> Result<(), (String, String)> {
     if h.ptype != e.ptype {
-        return Err(("peer-type".into(), format!("peer type {} expected {}", h.ptype, e.ptype)));
+        return Err((
+            "peer-type".into(),
+            format!("peer type {} expected {}", h.ptype, e.ptype),
+        ));
     }
     check_hdr_addr(h, &e.addr)?;
     if h.flags & 0x7f != e.flags {
-        return Err(("peer-flags".into(), format!("flags {:02x} expected L/O bits {:02x}", h.flags, e.flags)));
+        return Err((
+            "peer-flags".into(),
+            format!("flags {:02x} expected L/O bits {:02x}", h.flags, e.flags),
+        ));
     }
     if h.rd != 0 {
-        return Err(("peer-distinguisher".into(), format!("{:016x} expected 0", h.rd)));
+        return Err((
+            "peer-distinguisher".into(),
+            format!("{:016x} expected 0", h.rd),
+        ));
     }
     if h.asn != e.asn {
-        return Err(("peer-as".into(), format!("AS{} expected AS{}", h.asn, e.asn)));
+        return Err((
+            "peer-as".into(),
+            format!("AS{} expected AS{}", h.asn, e.asn),
+        ));
     }
     if h.id != e.id {
-        return Err(("peer-bgp-id".into(), format!("{} expected {}", hex(&h.id), hex(&e.id))));
+        return Err((
+            "peer-bgp-id".into(),
+            format!("{} expected {}", hex(&h.id), hex(&e.id)),
+        ));
     }
     if let Some(ts) = e.ts {
         if h.ts != ts {
@@ -199,67 +303,192 @@ fn check_hdr(h: &PeerHdr, e: &HdrExp) -> Result<(), (String, String)> {
 }
 
 /// Encode with the session-long codec as `Framed` does, catching panics.
-fn encode_bmp(codec: &mut bmp::BmpCodec, msg: &bmp::Message, kind: &str) -> Result<Vec<u8>, Finding> {
+fn encode_bmp(
+    codec: &mut bmp::BmpCodec,
+    msg: &bmp::Message,
+    kind: &str,
+) -> Result<Vec<u8>, Finding> {
     match guard(|| {
         let mut buf = bytes::BytesMut::new();
         codec.encode(msg, &mut buf).map(|_| buf.to_vec())
     }) {
         Ok(Ok(b)) => Ok(b),
-        Ok(Err(e)) => Err(finding(kind, "encode-error", "BmpCodec refuses a message the daemon built", format!("{:?}", e), &[])),
-        Err(p) => Err(finding(kind, &format!("panic/{}:{}", p.location, panic_class(&p.message)), "building / encoding a BMP message panicked", p.message, &[])),
+        Ok(Err(e)) => Err(finding(
+            kind,
+            "encode-error",
+            "BmpCodec refuses a message the daemon built",
+            format!("{:?}", e),
+            &[],
+        )),
+        Err(p) => Err(finding(
+            kind,
+            &format!("panic/{}:{}", p.location, panic_class(&p.message)),
+            "building / encoding a BMP message panicked",
+            p.message,
+            &[],
+        )),
     }
 }
 
 /// Judge the RouteMonitoring message(s) emitted for one event.
-fn judge_route_bytes(ps: &mut Parsers, bytes: &[u8], hdr: &HdrExp, exp: &RouteExp) -> Result<(), Finding> {
+fn judge_route_bytes(
+    ps: &mut Parsers,
+    bytes: &[u8],
+    hdr: &HdrExp,
+    exp: &RouteExp,
+) -> Result<(), Finding> {
     let k = "route-monitoring";
-    let recs = read_bmp(bytes).map_err(|(c, d)| finding(k, &c, "BMP common header length does not delimit the message", d, bytes))?;
+    let recs = read_bmp(bytes).map_err(|(c, d)| {
+        finding(
+            k,
+            &c,
+            "BMP common header length does not delimit the message",
+            d,
+            bytes,
+        )
+    })?;
     if recs.is_empty() {
-        return Err(finding(k, "nothing-emitted", "no BMP message for a monitored route event", String::new(), bytes));
+        return Err(finding(
+            k,
+            "nothing-emitted",
+            "no BMP message for a monitored route event",
+            String::new(),
+            bytes,
+        ));
     }
     let mut d = Decoded::default();
     for r in &recs {
         if r.typ != 0 {
-            return Err(finding(k, "type", "message type differs", format!("type {}", r.typ), bytes));
+            return Err(finding(
+                k,
+                "type",
+                "message type differs",
+                format!("type {}", r.typ),
+                bytes,
+            ));
         }
         let m = read_bmp_msg(ps, r.typ, r.body).map_err(|(_, c, dd)| finding(k, &c, "RouteMonitoring must carry a per-peer header and exactly one BGP UPDATE PDU filling the message", dd, bytes))?;
-        let StMsg::Route { hdr: h, pdu } = m else { unreachable!() };
-        check_hdr(&h, hdr).map_err(|(c, dd)| finding(k, &c, "per-peer header does not describe the monitored peer / RIB view", dd, bytes))?;
+        let StMsg::Route { hdr: h, pdu } = m else {
+            unreachable!()
+        };
+        check_hdr(&h, hdr).map_err(|(c, dd)| {
+            finding(
+                k,
+                &c,
+                "per-peer header does not describe the monitored peer / RIB view",
+                dd,
+                bytes,
+            )
+        })?;
         match ps.parse(&pdu, exp.addpath, false) {
             Ok(pm) => d.absorb(pm),
             Err((c, dd)) => {
-                let c = if c.starts_with("panic/") { c } else { format!("{}/{}", c, exp.shape()) };
-                return Err(finding(k, &c, "embedded UPDATE is not readable by the repository's parser with the add-path setting of the session", dd, bytes));
+                let c = if c.starts_with("panic/") {
+                    c
+                } else {
+                    format!("{}/{}", c, exp.shape())
+                };
+                return Err(finding(
+                    k,
+                    &c,
+                    "embedded UPDATE is not readable by the repository's parser with the add-path setting of the session",
+                    dd,
+                    bytes,
+                ));
             }
         }
     }
     compare_exp(exp, &d).map_err(|(c, dd)| finding(k, &format!("{}/{}", c, exp.shape()), "embedded UPDATE(s) do not parse back to the monitored prefixes / attributes / next hop", dd, bytes))
 }
 
-fn judge_eor_bytes(ps: &mut Parsers, bytes: &[u8], hdr: &HdrExp, family: Family) -> Result<(), Finding> {
+fn judge_eor_bytes(
+    ps: &mut Parsers,
+    bytes: &[u8],
+    hdr: &HdrExp,
+    family: Family,
+) -> Result<(), Finding> {
     let k = "route-monitoring";
-    let recs = read_bmp(bytes).map_err(|(c, d)| finding(k, &c, "BMP common header length does not delimit the message", d, bytes))?;
+    let recs = read_bmp(bytes).map_err(|(c, d)| {
+        finding(
+            k,
+            &c,
+            "BMP common header length does not delimit the message",
+            d,
+            bytes,
+        )
+    })?;
     if recs.len() != 1 || recs[0].typ != 0 {
-        return Err(finding(k, "eor-message-count", "one RouteMonitoring message expected for an End-of-RIB", format!("{} messages", recs.len()), bytes));
+        return Err(finding(
+            k,
+            "eor-message-count",
+            "one RouteMonitoring message expected for an End-of-RIB",
+            format!("{} messages", recs.len()),
+            bytes,
+        ));
     }
-    let m = read_bmp_msg(ps, 0, recs[0].body).map_err(|(_, c, dd)| finding(k, &c, "End-of-RIB RouteMonitoring is not well-formed", dd, bytes))?;
-    let StMsg::Route { hdr: h, pdu } = m else { unreachable!() };
-    check_hdr(&h, hdr).map_err(|(c, dd)| finding(k, &format!("eor-{}", c), "per-peer header of the End-of-RIB does not describe the peer / RIB view", dd, bytes))?;
+    let m = read_bmp_msg(ps, 0, recs[0].body).map_err(|(_, c, dd)| {
+        finding(
+            k,
+            &c,
+            "End-of-RIB RouteMonitoring is not well-formed",
+            dd,
+            bytes,
+        )
+    })?;
+    let StMsg::Route { hdr: h, pdu } = m else {
+        unreachable!()
+    };
+    check_hdr(&h, hdr).map_err(|(c, dd)| {
+        finding(
+            k,
+            &format!("eor-{}", c),
+            "per-peer header of the End-of-RIB does not describe the peer / RIB view",
+            dd,
+            bytes,
+        )
+    })?;
     match ps.parse(&pdu, false, false) {
         Ok(ParsedMessage::Update(ParsedUpdate::EndOfRib(f))) if f == family => Ok(()),
-        Ok(_) => Err(finding(k, "eor-differs", "the End-of-RIB marker does not parse back as End-of-RIB of the family", fam_name(family).to_string(), bytes)),
-        Err((c, dd)) => Err(finding(k, &format!("eor-{}", c), "End-of-RIB PDU not readable", dd, bytes)),
+        Ok(_) => Err(finding(
+            k,
+            "eor-differs",
+            "the End-of-RIB marker does not parse back as End-of-RIB of the family",
+            fam_name(family).to_string(),
+            bytes,
+        )),
+        Err((c, dd)) => Err(finding(
+            k,
+            &format!("eor-{}", c),
+            "End-of-RIB PDU not readable",
+            dd,
+            bytes,
+        )),
     }
 }
 
 fn exp_of_change(c: &AdjRibInChange) -> RouteExp {
-    RouteExp { family: c.family, reach: c.attrs.is_some(), entries: c.nlris.clone(), nexthop: if c.attrs.is_some() { c.nexthop } else { None }, attrs: c.attrs.clone().unwrap_or_else(|| Arc::new(Vec::new())), addpath: c.addpath }
+    RouteExp {
+        family: c.family,
+        reach: c.attrs.is_some(),
+        entries: c.nlris.clone(),
+        nexthop: if c.attrs.is_some() { c.nexthop } else { None },
+        attrs: c.attrs.clone().unwrap_or_else(|| Arc::new(Vec::new())),
+        addpath: c.addpath,
+    }
 }
 
 fn count_route(rep: &mut Report, pre: &str, exp: &RouteExp, peer_v6: bool) {
     rep.count(&format!("{}:family/{}", pre, fam_name(exp.family)));
-    rep.count(&format!("{}:{}", pre, if exp.reach { "reach" } else { "withdraw" }));
-    rep.count(&format!("{}:{}", pre, if peer_v6 { "peer-v6" } else { "peer-v4" }));
+    rep.count(&format!(
+        "{}:{}",
+        pre,
+        if exp.reach { "reach" } else { "withdraw" }
+    ));
+    rep.count(&format!(
+        "{}:{}",
+        pre,
+        if peer_v6 { "peer-v6" } else { "peer-v4" }
+    ));
     if exp.addpath {
         rep.count(&format!("{}:addpath", pre));
     }
@@ -323,12 +552,38 @@ fn conv_peers(rng: &mut Rng) -> Vec<CPeer> {
                 4_200_000_000 + i as u32
             };
             let (remote, local): (IpAddr, IpAddr) = if v6 {
-                (IpAddr::V6(Ipv6Addr::new(0x2001, 0xdb8, 0xfe, 0, 0, 0, 0, 0x10 + i as u16)), IpAddr::V6(Ipv6Addr::new(0x2001, 0xdb8, 0xfe, 0, 0, 0, 0, 1)))
+                (
+                    IpAddr::V6(Ipv6Addr::new(
+                        0x2001,
+                        0xdb8,
+                        0xfe,
+                        0,
+                        0,
+                        0,
+                        0,
+                        0x10 + i as u16,
+                    )),
+                    IpAddr::V6(Ipv6Addr::new(0x2001, 0xdb8, 0xfe, 0, 0, 0, 0, 1)),
+                )
             } else {
-                (IpAddr::V4(Ipv4Addr::new(192, 0, 2, 10 + i as u8)), IpAddr::V4(Ipv4Addr::new(192, 0, 2, 1)))
+                (
+                    IpAddr::V4(Ipv4Addr::new(192, 0, 2, 10 + i as u8)),
+                    IpAddr::V4(Ipv4Addr::new(192, 0, 2, 1)),
+                )
             };
             CPeer {
-                src: Arc::new(table::Source::new(remote, local, asn, LOCAL_ASN_2, Ipv4Addr::new(1, 1, rng.below(200) as u8, 10 + i as u8), if ibgp { table::PeerRole::Ibgp } else { table::PeerRole::Ebgp })),
+                src: Arc::new(table::Source::new(
+                    remote,
+                    local,
+                    asn,
+                    LOCAL_ASN_2,
+                    Ipv4Addr::new(1, 1, rng.below(200) as u8, 10 + i as u8),
+                    if ibgp {
+                        table::PeerRole::Ibgp
+                    } else {
+                        table::PeerRole::Ebgp
+                    },
+                )),
                 addpath: rng.chance(1, 3),
             }
         })
@@ -337,18 +592,35 @@ fn conv_peers(rng: &mut Rng) -> Vec<CPeer> {
 
 fn conv_nexthop(rng: &mut Rng, fam: Family, v6peer: bool) -> Option<Nexthop> {
     if fam == Family::IPV6 {
-        return Some(if rng.chance(1, 3) { Nexthop::V6LinkLocal(rand_v6(rng), rand_ll(rng)) } else { Nexthop::V6(rand_v6(rng)) });
+        return Some(if rng.chance(1, 3) {
+            Nexthop::V6LinkLocal(rand_v6(rng), rand_ll(rng))
+        } else {
+            Nexthop::V6(rand_v6(rng))
+        });
     }
     if fam == Family::IPV4 {
         if v6peer && rng.chance(2, 3) {
-            return Some(if rng.chance(1, 4) { Nexthop::V6LinkLocal(rand_v6(rng), rand_ll(rng)) } else { Nexthop::V6(rand_v6(rng)) });
+            return Some(if rng.chance(1, 4) {
+                Nexthop::V6LinkLocal(rand_v6(rng), rand_ll(rng))
+            } else {
+                Nexthop::V6(rand_v6(rng))
+            });
         }
         return Some(Nexthop::V4(rand_v4(rng)));
     }
-    Some(if rng.bool() { Nexthop::V4(rand_v4(rng)) } else { Nexthop::V6(rand_v6(rng)) })
+    Some(if rng.bool() {
+        Nexthop::V4(rand_v4(rng))
+    } else {
+        Nexthop::V6(rand_v6(rng))
+    })
 }
 
-fn attr_pool(rng: &mut Rng, ps: &mut Parsers, rep: &mut Report, n: usize) -> Vec<Arc<Vec<Attribute>>> {
+fn attr_pool(
+    rng: &mut Rng,
+    ps: &mut Parsers,
+    rep: &mut Report,
+    n: usize,
+) -> Vec<Arc<Vec<Attribute>>> {
     let mut pool = Vec::new();
     while pool.len() < n {
         let size = match rng.below(30) {
@@ -373,15 +645,26 @@ fn fam_id(f: Family) -> u32 {
 }
 
 /// the RIB's own Adj-RIB-In of one peer, pre- or post-policy, through its read accessors
-fn rib_adj_in(tables: &TableManager, peer: IpAddr, post: bool) -> BTreeMap<SnapKey, (String, String)> {
+fn rib_adj_in(
+    tables: &TableManager,
+    peer: IpAddr,
+    post: bool,
+) -> BTreeMap<SnapKey, (String, String)> {
     let mut m = BTreeMap::new();
     for shard in &tables.shards {
         let s = shard.lock().unwrap();
         for f in s.rtable.families().collect::<Vec<_>>() {
-            let it: Vec<table::Reach> = if post { s.rtable.iter_reach_post(f).collect() } else { s.rtable.iter_reach(f).collect() };
+            let it: Vec<table::Reach> = if post {
+                s.rtable.iter_reach_post(f).collect()
+            } else {
+                s.rtable.iter_reach(f).collect()
+            };
             for r in it {
                 if r.source.remote_addr == peer {
-                    m.insert((fam_id(f), r.net.nlri.to_string(), r.net.path_id), (attrs_canon(&r.attr), nh_str(&r.nexthop)));
+                    m.insert(
+                        (fam_id(f), r.net.nlri.to_string(), r.net.path_id),
+                        (attrs_canon(&r.attr), nh_str(&r.nexthop)),
+                    );
                 }
             }
         }
@@ -395,10 +678,23 @@ fn conv_history(rep: &mut Report, ps: &mut Parsers, rng: &mut Rng, hseed: u64) {
     let with_policy = rng.chance(1, 4);
     if with_policy {
         let mut pt = table::PolicyTable::new();
-        let actions = table::Actions { local_pref: Some(table::LocalPrefAction { value: 250 }), ..Default::default() };
-        pt.add_statement("lp", vec![], Some(table::Disposition::Accept), actions).unwrap();
+        let actions = table::Actions {
+            local_pref: Some(table::LocalPrefAction { value: 250 }),
+            ..Default::default()
+        };
+        pt.add_statement("lp", vec![], Some(table::Disposition::Accept), actions)
+            .unwrap();
         pt.add_policy("pa", vec!["lp".into()]).unwrap();
-        tables.import_policy.store(Some(pt.build_assignment(None, "a", table::PolicyDirection::Import, table::Disposition::Accept, vec!["pa".into()]).unwrap()));
+        tables.import_policy.store(Some(
+            pt.build_assignment(
+                None,
+                "a",
+                table::PolicyDirection::Import,
+                table::Disposition::Accept,
+                vec!["pa".into()],
+            )
+            .unwrap(),
+        ));
     }
     let peers = conv_peers(rng);
     let ap_fams = [Family::IPV4, Family::IPV6, Family::IPV4_VPN];
@@ -411,10 +707,22 @@ fn conv_history(rep: &mut Report, ps: &mut Parsers, rng: &mut Rng, hseed: u64) {
     }
     let pool = attr_pool(rng, ps, rep, 6);
     let router_id = Ipv4Addr::new(10, 255, rng.below(256) as u8, 1);
-    let local_asn = if rng.bool() { LOCAL_ASN_2 } else { 4_200_100_000 + rng.below(1000) as u32 };
+    let local_asn = if rng.bool() {
+        LOCAL_ASN_2
+    } else {
+        4_200_100_000 + rng.below(1000) as u32
+    };
     let mut codec = bmp::BmpCodec::new();
     let mut live = tables.subscribe(false);
-    let desc = |p: &CPeer| format!("{} AS{} id {} addpath={}", p.src.remote_addr, p.src.remote_asn, Ipv4Addr::from(p.src.router_id), p.addpath);
+    let desc = |p: &CPeer| {
+        format!(
+            "{} AS{} id {} addpath={}",
+            p.src.remote_addr,
+            p.src.remote_asn,
+            Ipv4Addr::from(p.src.router_id),
+            p.addpath
+        )
+    };
 
     // ---- route operations against the real RIB
     let nops = rng.range(10, 120) as usize;
@@ -425,7 +733,13 @@ fn conv_history(rep: &mut Report, ps: &mut Parsers, rng: &mut Rng, hseed: u64) {
         if !livekeys.is_empty() && rng.chance(1, 5) {
             let k = rng.usize(livekeys.len());
             let (wp, fam, net) = livekeys.swap_remove(k);
-            tables.remove_route(peers[wp].src.clone(), fam, net, None, 1_700_000_000 + i as u32);
+            tables.remove_route(
+                peers[wp].src.clone(),
+                fam,
+                net,
+                None,
+                1_700_000_000 + i as u32,
+            );
             continue;
         }
         let fam = match rng.below(20) {
@@ -443,10 +757,24 @@ fn conv_history(rep: &mut Report, ps: &mut Parsers, rng: &mut Rng, hseed: u64) {
             gen_nlri(rng, fam, true)
         };
         let ap = peer.addpath && ap_fams.contains(&fam);
-        let net = PathNlri { path_id: if ap { rng.range(1, 3) as u32 } else { 0 }, nlri };
+        let net = PathNlri {
+            path_id: if ap { rng.range(1, 3) as u32 } else { 0 },
+            nlri,
+        };
         let nh = conv_nexthop(rng, fam, peer.src.remote_addr.is_ipv6());
-        tables.insert_route(peer.src.clone(), fam, net.clone(), nh, rng.pick(&pool).clone(), None, 1_700_000_000 + i as u32);
-        if !livekeys.iter().any(|(p, f, n)| *p == pi && *f == fam && *n == net) {
+        tables.insert_route(
+            peer.src.clone(),
+            fam,
+            net.clone(),
+            nh,
+            rng.pick(&pool).clone(),
+            None,
+            1_700_000_000 + i as u32,
+        );
+        if !livekeys
+            .iter()
+            .any(|(p, f, n)| *p == pi && *f == fam && *n == net)
+        {
             livekeys.push((pi, fam, net));
         }
     }
@@ -459,24 +787,79 @@ fn conv_history(rep: &mut Report, ps: &mut Parsers, rng: &mut Rng, hseed: u64) {
                 conv_adj_in(rep, ps, &mut codec, &change, 0, hseed, "conv-pre");
                 all_pre.push(change);
             }
-            BgpEvent::AdjRibInPost(change) => conv_adj_in(rep, ps, &mut codec, &change, bmp::Message::PEER_FLAG_POST_POLICY, hseed, "conv-post"),
+            BgpEvent::AdjRibInPost(change) => conv_adj_in(
+                rep,
+                ps,
+                &mut codec,
+                &change,
+                bmp::Message::PEER_FLAG_POST_POLICY,
+                hseed,
+                "conv-post",
+            ),
             BgpEvent::LocRib(change) => {
                 rep.eval();
-                let exp = RouteExp { family: change.family, reach: change.attr.is_some(), entries: vec![PathNlri { path_id: 0, nlri: change.net.clone() }], nexthop: if change.attr.is_some() { change.nexthop } else { None }, attrs: change.attr.clone().unwrap_or_else(|| Arc::new(Vec::new())), addpath: false };
+                let exp = RouteExp {
+                    family: change.family,
+                    reach: change.attr.is_some(),
+                    entries: vec![PathNlri {
+                        path_id: 0,
+                        nlri: change.net.clone(),
+                    }],
+                    nexthop: if change.attr.is_some() {
+                        change.nexthop
+                    } else {
+                        None
+                    },
+                    attrs: change.attr.clone().unwrap_or_else(|| Arc::new(Vec::new())),
+                    addpath: false,
+                };
                 if let Err(why) = exp_bgp_stable(ps, &exp, false) {
-                    rep.count(&format!("unjudged:bgp-codec-unstable/{}", why.split(':').next().unwrap_or("")));
+                    rep.count(&format!(
+                        "unjudged:bgp-codec-unstable/{}",
+                        why.split(':').next().unwrap_or("")
+                    ));
                     continue;
                 }
-                let hdr = HdrExp { ptype: 3, flags: 0, addr: IpAddr::V4(Ipv4Addr::UNSPECIFIED), asn: local_asn, id: router_id.octets(), ts: Some(change.timestamp) };
-                let r = guard(|| loc_rib_to_bmp(&change, router_id, local_asn)).map_err(|p| finding("route-monitoring", &format!("panic/{}:{}", p.location, panic_class(&p.message)), "loc_rib_to_bmp panicked", p.message, &[])).and_then(|m| encode_bmp(&mut codec, &m, "route-monitoring")).and_then(|b| judge_route_bytes(ps, &b, &hdr, &exp).map(|_| b));
+                let hdr = HdrExp {
+                    ptype: 3,
+                    flags: 0,
+                    addr: IpAddr::V4(Ipv4Addr::UNSPECIFIED),
+                    asn: local_asn,
+                    id: router_id.octets(),
+                    ts: Some(change.timestamp),
+                };
+                let r = guard(|| loc_rib_to_bmp(&change, router_id, local_asn))
+                    .map_err(|p| {
+                        finding(
+                            "route-monitoring",
+                            &format!("panic/{}:{}", p.location, panic_class(&p.message)),
+                            "loc_rib_to_bmp panicked",
+                            p.message,
+                            &[],
+                        )
+                    })
+                    .and_then(|m| encode_bmp(&mut codec, &m, "route-monitoring"))
+                    .and_then(|b| judge_route_bytes(ps, &b, &hdr, &exp).map(|_| b));
                 match r {
                     Ok(b) => {
                         rep.nontrivial(fnv64(&b));
                         count_route(rep, "conv-locrib", &exp, false);
                     }
                     Err(mut f) => {
-                        f.sig = f.sig.replace("/route-monitoring/", "/route-monitoring/loc-rib-");
-                        report(rep, f, Json::obj(vec![("via", Json::s("loc_rib_to_bmp")), ("router_id", Json::s(router_id.to_string())), ("local_asn", Json::Int(local_asn as i128)), ("route", exp.json())]), hseed)
+                        f.sig = f
+                            .sig
+                            .replace("/route-monitoring/", "/route-monitoring/loc-rib-");
+                        report(
+                            rep,
+                            f,
+                            Json::obj(vec![
+                                ("via", Json::s("loc_rib_to_bmp")),
+                                ("router_id", Json::s(router_id.to_string())),
+                                ("local_asn", Json::Int(local_asn as i128)),
+                                ("route", exp.json()),
+                            ]),
+                            hseed,
+                        )
                     }
                 }
             }
@@ -497,9 +880,34 @@ fn conv_history(rep: &mut Report, ps: &mut Parsers, rng: &mut Rng, hseed: u64) {
             2 => rng.range(1500, 4000),
             _ => rng.range(14000, 17000),
         } as usize;
-        let nlris: Vec<PathNlri> = (0..n).map(|_| PathNlri { path_id: if ap { rng.next_u32() | 1 } else { 0 }, nlri: if v6 { Nlri::V6(v6net(rng)) } else { Nlri::V4(v4net(rng)) } }).collect();
+        let nlris: Vec<PathNlri> = (0..n)
+            .map(|_| PathNlri {
+                path_id: if ap { rng.next_u32() | 1 } else { 0 },
+                nlri: if v6 {
+                    Nlri::V6(v6net(rng))
+                } else {
+                    Nlri::V4(v4net(rng))
+                },
+            })
+            .collect();
         let reach = rng.chance(3, 4);
-        let change = AdjRibInChange { source: peer.src.clone(), family: fam, addpath: ap, nlris, attrs: if reach { Some(rng.pick(&pool).clone()) } else { None }, nexthop: if reach { conv_nexthop(rng, fam, peer.src.remote_addr.is_ipv6()) } else { None }, timestamp: 1_700_000_999 };
+        let change = AdjRibInChange {
+            source: peer.src.clone(),
+            family: fam,
+            addpath: ap,
+            nlris,
+            attrs: if reach {
+                Some(rng.pick(&pool).clone())
+            } else {
+                None
+            },
+            nexthop: if reach {
+                conv_nexthop(rng, fam, peer.src.remote_addr.is_ipv6())
+            } else {
+                None
+            },
+            timestamp: 1_700_000_999,
+        };
         conv_adj_in(rep, ps, &mut codec, &change, 0, hseed, "conv-many");
         rep.max("conv-nlri-per-event", n as u64);
     }
@@ -507,8 +915,19 @@ fn conv_history(rep: &mut Report, ps: &mut Parsers, rng: &mut Rng, hseed: u64) {
     // ---- Adj-RIB-Out changes (what BmpAdjOut emits), O and O|L views
     for _ in 0..rng.range(2, 8) {
         let peer = rng.pick(&peers);
-        let fam = *rng.pick(&[Family::IPV4, Family::IPV6, Family::IPV4_VPN, Family::L2VPN_EVPN]);
-        let nlri = if fam == Family::IPV4 { conv_v4_prefix(rng.usize(10)) } else if fam == Family::IPV6 { conv_v6_prefix(rng.usize(6)) } else { gen_nlri(rng, fam, true) };
+        let fam = *rng.pick(&[
+            Family::IPV4,
+            Family::IPV6,
+            Family::IPV4_VPN,
+            Family::L2VPN_EVPN,
+        ]);
+        let nlri = if fam == Family::IPV4 {
+            conv_v4_prefix(rng.usize(10))
+        } else if fam == Family::IPV6 {
+            conv_v6_prefix(rng.usize(6))
+        } else {
+            gen_nlri(rng, fam, true)
+        };
         let ap = rng.chance(1, 3);
         let reach = rng.chance(3, 4);
         let change = AdjRibOutChange {
@@ -517,25 +936,74 @@ fn conv_history(rep: &mut Report, ps: &mut Parsers, rng: &mut Rng, hseed: u64) {
             peer_id: peer.src.router_id,
             family: fam,
             addpath: ap,
-            nlri: PathNlri { path_id: if ap { rng.range(1, 9) as u32 } else { 0 }, nlri },
-            attrs: if reach { Some(rng.pick(&pool).clone()) } else { None },
-            nexthop: if reach { conv_nexthop(rng, fam, peer.src.remote_addr.is_ipv6()) } else { None },
+            nlri: PathNlri {
+                path_id: if ap { rng.range(1, 9) as u32 } else { 0 },
+                nlri,
+            },
+            attrs: if reach {
+                Some(rng.pick(&pool).clone())
+            } else {
+                None
+            },
+            nexthop: if reach {
+                conv_nexthop(rng, fam, peer.src.remote_addr.is_ipv6())
+            } else {
+                None
+            },
             timestamp: 1_700_001_000,
         };
         let post = rng.bool();
-        let flags = bmp::Message::PEER_FLAG_ADJ_RIB_OUT | if post { bmp::Message::PEER_FLAG_POST_POLICY } else { 0 };
-        let exp = RouteExp { family: fam, reach, entries: vec![change.nlri.clone()], nexthop: change.nexthop, attrs: change.attrs.clone().unwrap_or_else(|| Arc::new(Vec::new())), addpath: ap };
+        let flags = bmp::Message::PEER_FLAG_ADJ_RIB_OUT
+            | if post {
+                bmp::Message::PEER_FLAG_POST_POLICY
+            } else {
+                0
+            };
+        let exp = RouteExp {
+            family: fam,
+            reach,
+            entries: vec![change.nlri.clone()],
+            nexthop: change.nexthop,
+            attrs: change.attrs.clone().unwrap_or_else(|| Arc::new(Vec::new())),
+            addpath: ap,
+        };
         rep.eval();
         if exp_bgp_stable(ps, &exp, false).is_err() {
             rep.count("unjudged:bgp-codec-unstable/adj-out");
             continue;
         }
-        let hdr = HdrExp { ptype: 0, flags, addr: change.peer_addr, asn: change.peer_asn, id: change.peer_id.to_be_bytes(), ts: Some(change.timestamp) };
+        let hdr = HdrExp {
+            ptype: 0,
+            flags,
+            addr: change.peer_addr,
+            asn: change.peer_asn,
+            id: change.peer_id.to_be_bytes(),
+            ts: Some(change.timestamp),
+        };
         let r = guard(|| adj_rib_out_to_bmp_update(&change))
-            .map_err(|p| finding("route-monitoring", &format!("panic/{}:{}", p.location, panic_class(&p.message)), "adj_rib_out_to_bmp_update panicked", p.message, &[]))
+            .map_err(|p| {
+                finding(
+                    "route-monitoring",
+                    &format!("panic/{}:{}", p.location, panic_class(&p.message)),
+                    "adj_rib_out_to_bmp_update panicked",
+                    p.message,
+                    &[],
+                )
+            })
             .and_then(|update| {
                 // the header exactly as serve() builds it for BgpEvent::AdjRibOutPre / AdjRibOutPost
-                let m = bmp::Message::RouteMonitoring { header: bmp::PerPeerHeader::new(flags, change.peer_asn, Ipv4Addr::from(change.peer_id), 0, change.peer_addr, change.timestamp), update, addpath: change.addpath };
+                let m = bmp::Message::RouteMonitoring {
+                    header: bmp::PerPeerHeader::new(
+                        flags,
+                        change.peer_asn,
+                        Ipv4Addr::from(change.peer_id),
+                        0,
+                        change.peer_addr,
+                        change.timestamp,
+                    ),
+                    update,
+                    addpath: change.addpath,
+                };
                 encode_bmp(&mut codec, &m, "route-monitoring")
             })
             .and_then(|b| judge_route_bytes(ps, &b, &hdr, &exp).map(|_| b));
@@ -545,8 +1013,19 @@ fn conv_history(rep: &mut Report, ps: &mut Parsers, rng: &mut Rng, hseed: u64) {
                 count_route(rep, "conv-adjout", &exp, change.peer_addr.is_ipv6());
             }
             Err(mut f) => {
-                f.sig = f.sig.replace("/route-monitoring/", "/route-monitoring/adj-out-");
-                report(rep, f, Json::obj(vec![("via", Json::s("adj_rib_out_to_bmp_update")), ("peer", Json::s(desc(peer))), ("route", exp.json())]), hseed)
+                f.sig = f
+                    .sig
+                    .replace("/route-monitoring/", "/route-monitoring/adj-out-");
+                report(
+                    rep,
+                    f,
+                    Json::obj(vec![
+                        ("via", Json::s("adj_rib_out_to_bmp_update")),
+                        ("peer", Json::s(desc(peer))),
+                        ("route", exp.json()),
+                    ]),
+                    hseed,
+                )
             }
         }
     }
@@ -581,12 +1060,36 @@ fn conv_history(rep: &mut Report, ps: &mut Parsers, rng: &mut Rng, hseed: u64) {
         }
         for p in &peers {
             rep.eval();
-            let a: BTreeSet<String> = folded.get(&p.src.remote_addr).map(|m| m.keys().map(|(f, n)| format!("{}:{}#{}", fam_name(*f), n.nlri, n.path_id)).collect()).unwrap_or_default();
-            let b: BTreeSet<String> = snapshot.get(&p.src.remote_addr).map(|m| m.keys().map(|(f, n)| format!("{}:{}#{}", fam_name(*f), n.nlri, n.path_id)).collect()).unwrap_or_default();
+            let a: BTreeSet<String> = folded
+                .get(&p.src.remote_addr)
+                .map(|m| {
+                    m.keys()
+                        .map(|(f, n)| format!("{}:{}#{}", fam_name(*f), n.nlri, n.path_id))
+                        .collect()
+                })
+                .unwrap_or_default();
+            let b: BTreeSet<String> = snapshot
+                .get(&p.src.remote_addr)
+                .map(|m| {
+                    m.keys()
+                        .map(|(f, n)| format!("{}:{}#{}", fam_name(*f), n.nlri, n.path_id))
+                        .collect()
+                })
+                .unwrap_or_default();
             if a != b {
                 report(
                     rep,
-                    finding("route-monitoring", "snapshot-fold-differs", "apply_snapshot over the live history does not give the net state a fresh snapshot gives", format!("only in folded history: {:?}; only in snapshot: {:?}", a.difference(&b).take(5).collect::<Vec<_>>(), b.difference(&a).take(5).collect::<Vec<_>>()), &[]),
+                    finding(
+                        "route-monitoring",
+                        "snapshot-fold-differs",
+                        "apply_snapshot over the live history does not give the net state a fresh snapshot gives",
+                        format!(
+                            "only in folded history: {:?}; only in snapshot: {:?}",
+                            a.difference(&b).take(5).collect::<Vec<_>>(),
+                            b.difference(&a).take(5).collect::<Vec<_>>()
+                        ),
+                        &[],
+                    ),
                     Json::s(desc(p)),
                     hseed,
                 );
@@ -602,29 +1105,81 @@ fn conv_history(rep: &mut Report, ps: &mut Parsers, rng: &mut Rng, hseed: u64) {
             let p = &peers[pi];
             let addr = p.src.remote_addr;
             let uptime = 1_600_000_000 + pi as u32;
-            let flags = if post { bmp::Message::PEER_FLAG_POST_POLICY } else { 0 };
-            let base = bmp::PerPeerHeader::new(0, p.src.remote_asn, Ipv4Addr::from(p.src.router_id), 0, addr, uptime);
+            let flags = if post {
+                bmp::Message::PEER_FLAG_POST_POLICY
+            } else {
+                0
+            };
+            let base = bmp::PerPeerHeader::new(
+                0,
+                p.src.remote_asn,
+                Ipv4Addr::from(p.src.router_id),
+                0,
+                addr,
+                uptime,
+            );
             let peer_header = if post { base.with_post_policy() } else { base };
             let want = rib_adj_in(&tables, addr, post);
             rep.eval();
             let msgs = match guard(|| flush_peer_snapshot(snap, addr, &peer_header, flags)) {
                 Ok(m) => m,
                 Err(pn) => {
-                    report(rep, finding("route-monitoring", &format!("panic/{}:{}", pn.location, panic_class(&pn.message)), "flush_peer_snapshot panicked", pn.message, &[]), Json::s(desc(p)), hseed);
+                    report(
+                        rep,
+                        finding(
+                            "route-monitoring",
+                            &format!("panic/{}:{}", pn.location, panic_class(&pn.message)),
+                            "flush_peer_snapshot panicked",
+                            pn.message,
+                            &[],
+                        ),
+                        Json::s(desc(p)),
+                        hseed,
+                    );
                     continue;
                 }
             };
             if snap.contains_key(&addr) {
-                report(rep, finding("route-monitoring", "snapshot-not-consumed", "flush_peer_snapshot left the peer's routes in the snapshot map", String::new(), &[]), Json::s(desc(p)), hseed);
+                report(
+                    rep,
+                    finding(
+                        "route-monitoring",
+                        "snapshot-not-consumed",
+                        "flush_peer_snapshot left the peer's routes in the snapshot map",
+                        String::new(),
+                        &[],
+                    ),
+                    Json::s(desc(p)),
+                    hseed,
+                );
             }
             let mut got: BTreeMap<SnapKey, (String, String)> = BTreeMap::new();
             let mut eors: Vec<Family> = Vec::new();
             let mut fail: Option<Finding> = None;
-            let hdr_route = HdrExp { ptype: 0, flags, addr, asn: p.src.remote_asn, id: p.src.router_id.to_be_bytes(), ts: None };
-            let hdr_eor = HdrExp { ts: Some(uptime), ..hdr_route.clone() };
+            let hdr_route = HdrExp {
+                ptype: 0,
+                flags,
+                addr,
+                asn: p.src.remote_asn,
+                id: p.src.router_id.to_be_bytes(),
+                ts: None,
+            };
+            let hdr_eor = HdrExp {
+                ts: Some(uptime),
+                ..hdr_route.clone()
+            };
             for m in &msgs {
-                let bmp::Message::RouteMonitoring { update, addpath, .. } = m else {
-                    fail = Some(finding("route-monitoring", "snapshot-type", "flush_peer_snapshot returned something else than RouteMonitoring", String::new(), &[]));
+                let bmp::Message::RouteMonitoring {
+                    update, addpath, ..
+                } = m
+                else {
+                    fail = Some(finding(
+                        "route-monitoring",
+                        "snapshot-type",
+                        "flush_peer_snapshot returned something else than RouteMonitoring",
+                        String::new(),
+                        &[],
+                    ));
                     break;
                 };
                 let bytes = match encode_bmp(&mut codec, m, "route-monitoring") {
@@ -642,12 +1197,30 @@ fn conv_history(rep: &mut Report, ps: &mut Parsers, rng: &mut Rng, hseed: u64) {
                         }
                         eors.push(*f);
                     }
-                    bgp::Message::Update(bgp::Update::Reach { family, entries, nexthop, attr }) => {
+                    bgp::Message::Update(bgp::Update::Reach {
+                        family,
+                        entries,
+                        nexthop,
+                        attr,
+                    }) => {
                         if eors.contains(family) {
-                            fail = Some(finding("route-monitoring", "snapshot-route-after-eor", "a route of a family follows the End-of-RIB of that family", fam_name(*family).into(), &bytes));
+                            fail = Some(finding(
+                                "route-monitoring",
+                                "snapshot-route-after-eor",
+                                "a route of a family follows the End-of-RIB of that family",
+                                fam_name(*family).into(),
+                                &bytes,
+                            ));
                             break;
                         }
-                        let exp = RouteExp { family: *family, reach: true, entries: entries.clone(), nexthop: *nexthop, attrs: attr.clone(), addpath: *addpath };
+                        let exp = RouteExp {
+                            family: *family,
+                            reach: true,
+                            entries: entries.clone(),
+                            nexthop: *nexthop,
+                            attrs: attr.clone(),
+                            addpath: *addpath,
+                        };
                         if exp_bgp_stable(ps, &exp, false).is_err() {
                             rep.count("unjudged:bgp-codec-unstable/snapshot");
                         } else if let Err(x) = judge_route_bytes(ps, &bytes, &hdr_route, &exp) {
@@ -657,41 +1230,128 @@ fn conv_history(rep: &mut Report, ps: &mut Parsers, rng: &mut Rng, hseed: u64) {
                         // what the RIB says about add-path for this peer / family is what the record must state
                         let want_ap = p.addpath && ap_fams.contains(family);
                         if *addpath != want_ap {
-                            fail = Some(finding("route-monitoring", "snapshot-addpath-setting", "snapshot RouteMonitoring states another add-path setting than the session has", format!("{} addpath={} session={}", fam_name(*family), addpath, want_ap), &bytes));
+                            fail = Some(finding(
+                                "route-monitoring",
+                                "snapshot-addpath-setting",
+                                "snapshot RouteMonitoring states another add-path setting than the session has",
+                                format!(
+                                    "{} addpath={} session={}",
+                                    fam_name(*family),
+                                    addpath,
+                                    want_ap
+                                ),
+                                &bytes,
+                            ));
                             break;
                         }
                         for e in entries {
-                            got.insert((fam_id(*family), e.nlri.to_string(), e.path_id), (attrs_canon(attr), nh_str(nexthop)));
+                            got.insert(
+                                (fam_id(*family), e.nlri.to_string(), e.path_id),
+                                (attrs_canon(attr), nh_str(nexthop)),
+                            );
                         }
                         rep.nontrivial(fnv64(&bytes));
-                        count_route(rep, if post { "conv-snap-post" } else { "conv-snap-pre" }, &exp, addr.is_ipv6());
+                        count_route(
+                            rep,
+                            if post {
+                                "conv-snap-post"
+                            } else {
+                                "conv-snap-pre"
+                            },
+                            &exp,
+                            addr.is_ipv6(),
+                        );
                     }
                     _ => {
-                        fail = Some(finding("route-monitoring", "snapshot-type", "snapshot flush produced a withdrawal / non-UPDATE", String::new(), &bytes));
+                        fail = Some(finding(
+                            "route-monitoring",
+                            "snapshot-type",
+                            "snapshot flush produced a withdrawal / non-UPDATE",
+                            String::new(),
+                            &bytes,
+                        ));
                         break;
                     }
                 }
             }
             if fail.is_none() && got != want {
-                let missing: Vec<String> = want.iter().filter(|(k, v)| got.get(*k) != Some(*v)).take(4).map(|(k, v)| format!("{:?} -> {} / {}", k, short(&v.0, 120), v.1)).collect();
-                let extra: Vec<String> = got.iter().filter(|(k, v)| want.get(*k) != Some(*v)).take(4).map(|(k, v)| format!("{:?} -> {} / {}", k, short(&v.0, 120), v.1)).collect();
-                let all_keys = got.keys().collect::<BTreeSet<_>>() == want.keys().collect::<BTreeSet<_>>();
-                let strip = |m: &BTreeMap<SnapKey, (String, String)>| m.keys().map(|k| (k.0, k.1.clone())).collect::<BTreeSet<_>>();
-                let clause = if all_keys { "snapshot-content-differs" } else if strip(&got) == strip(&want) { "snapshot-path-id-differs" } else { "snapshot-routes-differ" };
-                fail = Some(finding("route-monitoring", clause, "the flushed snapshot of a peer is not the Adj-RIB-In the RIB holds for it", format!("{} view: RIB {} routes, flushed {}; RIB only / differing: {:?}; flushed only / differing: {:?}", if post { "post-policy" } else { "pre-policy" }, want.len(), got.len(), missing, extra), &[]));
+                let missing: Vec<String> = want
+                    .iter()
+                    .filter(|(k, v)| got.get(*k) != Some(*v))
+                    .take(4)
+                    .map(|(k, v)| format!("{:?} -> {} / {}", k, short(&v.0, 120), v.1))
+                    .collect();
+                let extra: Vec<String> = got
+                    .iter()
+                    .filter(|(k, v)| want.get(*k) != Some(*v))
+                    .take(4)
+                    .map(|(k, v)| format!("{:?} -> {} / {}", k, short(&v.0, 120), v.1))
+                    .collect();
+                let all_keys =
+                    got.keys().collect::<BTreeSet<_>>() == want.keys().collect::<BTreeSet<_>>();
+                let strip = |m: &BTreeMap<SnapKey, (String, String)>| {
+                    m.keys()
+                        .map(|k| (k.0, k.1.clone()))
+                        .collect::<BTreeSet<_>>()
+                };
+                let clause = if all_keys {
+                    "snapshot-content-differs"
+                } else if strip(&got) == strip(&want) {
+                    "snapshot-path-id-differs"
+                } else {
+                    "snapshot-routes-differ"
+                };
+                fail = Some(finding(
+                    "route-monitoring",
+                    clause,
+                    "the flushed snapshot of a peer is not the Adj-RIB-In the RIB holds for it",
+                    format!(
+                        "{} view: RIB {} routes, flushed {}; RIB only / differing: {:?}; flushed only / differing: {:?}",
+                        if post { "post-policy" } else { "pre-policy" },
+                        want.len(),
+                        got.len(),
+                        missing,
+                        extra
+                    ),
+                    &[],
+                ));
             }
             if fail.is_none() {
                 let want_f: BTreeSet<u32> = want.keys().map(|k| k.0).collect();
                 let mut got_f: Vec<u32> = eors.iter().map(|f| fam_id(*f)).collect();
                 got_f.sort();
                 if got_f != want_f.iter().copied().collect::<Vec<_>>() {
-                    fail = Some(finding("route-monitoring", "snapshot-eor-missing", "the snapshot of a peer must end with exactly one End-of-RIB per family that had routes", format!("families with routes {:?}, End-of-RIB markers {:?}", want_f, got_f), &[]));
+                    fail = Some(finding(
+                        "route-monitoring",
+                        "snapshot-eor-missing",
+                        "the snapshot of a peer must end with exactly one End-of-RIB per family that had routes",
+                        format!(
+                            "families with routes {:?}, End-of-RIB markers {:?}",
+                            want_f, got_f
+                        ),
+                        &[],
+                    ));
                 }
             }
             match fail {
-                Some(f) => report(rep, f, Json::obj(vec![("via", Json::s("apply_snapshot + flush_peer_snapshot")), ("view", Json::s(if post { "post" } else { "pre" })), ("peer", Json::s(desc(p))), ("import_policy", Json::Bool(with_policy)), ("rib_routes", Json::Int(want.len() as i128))]), hseed),
+                Some(f) => report(
+                    rep,
+                    f,
+                    Json::obj(vec![
+                        ("via", Json::s("apply_snapshot + flush_peer_snapshot")),
+                        ("view", Json::s(if post { "post" } else { "pre" })),
+                        ("peer", Json::s(desc(p))),
+                        ("import_policy", Json::Bool(with_policy)),
+                        ("rib_routes", Json::Int(want.len() as i128)),
+                    ]),
+                    hseed,
+                ),
                 None => {
-                    rep.count(if want.is_empty() { "conv:snapshot-flush-empty" } else { "conv:snapshot-flush" });
+                    rep.count(if want.is_empty() {
+                        "conv:snapshot-flush-empty"
+                    } else {
+                        "conv:snapshot-flush"
+                    });
                     rep.count_n("conv:snapshot-eor", eors.len() as u64);
                 }
             }
@@ -701,41 +1361,127 @@ fn conv_history(rep: &mut Report, ps: &mut Parsers, rng: &mut Rng, hseed: u64) {
     // ---- the Loc-RIB virtual peer's PeerUp
     {
         rep.eval();
-        let r = guard(|| loc_rib_peer_up(router_id, local_asn)).map_err(|p| finding("peer-up", &format!("panic/{}:{}", p.location, panic_class(&p.message)), "loc_rib_peer_up panicked", p.message, &[])).and_then(|m| encode_bmp(&mut codec, &m, "peer-up")).and_then(|b| judge_loc_rib_peer_up(ps, &b, router_id, local_asn).map(|_| b));
+        let r = guard(|| loc_rib_peer_up(router_id, local_asn))
+            .map_err(|p| {
+                finding(
+                    "peer-up",
+                    &format!("panic/{}:{}", p.location, panic_class(&p.message)),
+                    "loc_rib_peer_up panicked",
+                    p.message,
+                    &[],
+                )
+            })
+            .and_then(|m| encode_bmp(&mut codec, &m, "peer-up"))
+            .and_then(|b| judge_loc_rib_peer_up(ps, &b, router_id, local_asn).map(|_| b));
         match r {
             Ok(b) => {
                 rep.nontrivial(fnv64(&b));
-                rep.count(if local_asn > 65535 { "conv:locrib-peer-up/4-byte-as" } else { "conv:locrib-peer-up/2-byte-as" });
+                rep.count(if local_asn > 65535 {
+                    "conv:locrib-peer-up/4-byte-as"
+                } else {
+                    "conv:locrib-peer-up/2-byte-as"
+                });
             }
-            Err(f) => report(rep, f, Json::obj(vec![("via", Json::s("loc_rib_peer_up")), ("router_id", Json::s(router_id.to_string())), ("local_asn", Json::Int(local_asn as i128))]), hseed),
+            Err(f) => report(
+                rep,
+                f,
+                Json::obj(vec![
+                    ("via", Json::s("loc_rib_peer_up")),
+                    ("router_id", Json::s(router_id.to_string())),
+                    ("local_asn", Json::Int(local_asn as i128)),
+                ]),
+                hseed,
+            ),
         }
     }
 
     // ---- session_down_to_bmp for every reason, in the PeerDown serve() builds
     let notif = |rng: &mut Rng| bgp::Message::Notification(gen_notification(rng));
-    let reasons: Vec<(&str, Option<crate::fsm::SessionDownReason>, u8, Option<bgp::Message>)> = {
+    let reasons: Vec<(
+        &str,
+        Option<crate::fsm::SessionDownReason>,
+        u8,
+        Option<bgp::Message>,
+    )> = {
         let (a, b) = (notif(rng), notif(rng));
         vec![
             ("none", None, 4, None),
-            ("io-error", Some(crate::fsm::SessionDownReason::IoError), 4, None),
-            ("hold-timer", Some(crate::fsm::SessionDownReason::HoldTimerExpired), 0, None),
-            ("fsm-error", Some(crate::fsm::SessionDownReason::FsmError), 0, None),
-            ("admin-shutdown", Some(crate::fsm::SessionDownReason::AdminShutdown), 0, None),
-            ("remote-notification", Some(crate::fsm::SessionDownReason::RemoteNotification(a.clone())), 3, Some(a)),
-            ("local-notification", Some(crate::fsm::SessionDownReason::LocalNotification(b.clone())), 1, Some(b)),
+            (
+                "io-error",
+                Some(crate::fsm::SessionDownReason::IoError),
+                4,
+                None,
+            ),
+            (
+                "hold-timer",
+                Some(crate::fsm::SessionDownReason::HoldTimerExpired),
+                0,
+                None,
+            ),
+            (
+                "fsm-error",
+                Some(crate::fsm::SessionDownReason::FsmError),
+                0,
+                None,
+            ),
+            (
+                "admin-shutdown",
+                Some(crate::fsm::SessionDownReason::AdminShutdown),
+                0,
+                None,
+            ),
+            (
+                "remote-notification",
+                Some(crate::fsm::SessionDownReason::RemoteNotification(a.clone())),
+                3,
+                Some(a),
+            ),
+            (
+                "local-notification",
+                Some(crate::fsm::SessionDownReason::LocalNotification(b.clone())),
+                1,
+                Some(b),
+            ),
         ]
     };
     for (name, reason, want_code, want_notif) in reasons {
         let p = rng.pick(&peers);
         rep.eval();
-        let hdr = HdrExp { ptype: 0, flags: 0, addr: p.src.remote_addr, asn: p.src.remote_asn, id: p.src.router_id.to_be_bytes(), ts: Some(77) };
+        let hdr = HdrExp {
+            ptype: 0,
+            flags: 0,
+            addr: p.src.remote_addr,
+            asn: p.src.remote_asn,
+            id: p.src.router_id.to_be_bytes(),
+            ts: Some(77),
+        };
         let r = guard(|| session_down_to_bmp(reason))
-            .map_err(|pn| finding("peer-down", &format!("panic/{}:{}", pn.location, panic_class(&pn.message)), "session_down_to_bmp panicked", pn.message, &[]))
+            .map_err(|pn| {
+                finding(
+                    "peer-down",
+                    &format!("panic/{}:{}", pn.location, panic_class(&pn.message)),
+                    "session_down_to_bmp panicked",
+                    pn.message,
+                    &[],
+                )
+            })
             .and_then(|reason| {
-                let m = bmp::Message::PeerDown { header: bmp::PerPeerHeader::new(0, p.src.remote_asn, Ipv4Addr::from(p.src.router_id), 0, p.src.remote_addr, 77), reason };
+                let m = bmp::Message::PeerDown {
+                    header: bmp::PerPeerHeader::new(
+                        0,
+                        p.src.remote_asn,
+                        Ipv4Addr::from(p.src.router_id),
+                        0,
+                        p.src.remote_addr,
+                        77,
+                    ),
+                    reason,
+                };
                 encode_bmp(&mut codec, &m, "peer-down")
             })
-            .and_then(|b| judge_peer_down_bytes(ps, &b, &hdr, want_code, want_notif.as_ref()).map(|_| b));
+            .and_then(|b| {
+                judge_peer_down_bytes(ps, &b, &hdr, want_code, want_notif.as_ref()).map(|_| b)
+            });
         match r {
             Ok(b) => {
                 rep.count(&format!("conv:peer-down/{}", name));
@@ -743,26 +1489,72 @@ fn conv_history(rep: &mut Report, ps: &mut Parsers, rng: &mut Rng, hseed: u64) {
                     rep.nontrivial(fnv64(&b));
                 }
             }
-            Err(f) => report(rep, f, Json::obj(vec![("via", Json::s("session_down_to_bmp")), ("reason", Json::s(name)), ("peer", Json::s(desc(p)))]), hseed),
+            Err(f) => report(
+                rep,
+                f,
+                Json::obj(vec![
+                    ("via", Json::s("session_down_to_bmp")),
+                    ("reason", Json::s(name)),
+                    ("peer", Json::s(desc(p))),
+                ]),
+                hseed,
+            ),
         }
     }
     rep.count("conv:histories");
     drop(keep_rx);
 }
 
-fn conv_adj_in(rep: &mut Report, ps: &mut Parsers, codec: &mut bmp::BmpCodec, change: &AdjRibInChange, flags: u8, hseed: u64, tag: &str) {
+fn conv_adj_in(
+    rep: &mut Report,
+    ps: &mut Parsers,
+    codec: &mut bmp::BmpCodec,
+    change: &AdjRibInChange,
+    flags: u8,
+    hseed: u64,
+    tag: &str,
+) {
     rep.eval();
     let exp = exp_of_change(change);
     if let Err(why) = exp_bgp_stable(ps, &exp, false) {
-        rep.count(&format!("unjudged:bgp-codec-unstable/{}", why.split(':').next().unwrap_or("")));
+        rep.count(&format!(
+            "unjudged:bgp-codec-unstable/{}",
+            why.split(':').next().unwrap_or("")
+        ));
         return;
     }
-    let hdr = HdrExp { ptype: 0, flags, addr: change.source.remote_addr, asn: change.source.remote_asn, id: change.source.router_id.to_be_bytes(), ts: Some(change.timestamp) };
+    let hdr = HdrExp {
+        ptype: 0,
+        flags,
+        addr: change.source.remote_addr,
+        asn: change.source.remote_asn,
+        id: change.source.router_id.to_be_bytes(),
+        ts: Some(change.timestamp),
+    };
     let r = guard(|| adj_rib_in_to_bmp_update(change))
-        .map_err(|p| finding("route-monitoring", &format!("panic/{}:{}", p.location, panic_class(&p.message)), "adj_rib_in_to_bmp_update panicked", p.message, &[]))
+        .map_err(|p| {
+            finding(
+                "route-monitoring",
+                &format!("panic/{}:{}", p.location, panic_class(&p.message)),
+                "adj_rib_in_to_bmp_update panicked",
+                p.message,
+                &[],
+            )
+        })
         .and_then(|update| {
             // the header exactly as serve() builds it for BgpEvent::AdjRibIn / AdjRibInPost
-            let m = bmp::Message::RouteMonitoring { header: bmp::PerPeerHeader::new(flags, change.source.remote_asn, Ipv4Addr::from(change.source.router_id), 0, change.source.remote_addr, change.timestamp), update, addpath: change.addpath };
+            let m = bmp::Message::RouteMonitoring {
+                header: bmp::PerPeerHeader::new(
+                    flags,
+                    change.source.remote_asn,
+                    Ipv4Addr::from(change.source.router_id),
+                    0,
+                    change.source.remote_addr,
+                    change.timestamp,
+                ),
+                update,
+                addpath: change.addpath,
+            };
             encode_bmp(codec, &m, "route-monitoring")
         })
         .and_then(|b| judge_route_bytes(ps, &b, &hdr, &exp).map(|_| b));
@@ -774,58 +1566,215 @@ fn conv_adj_in(rep: &mut Report, ps: &mut Parsers, codec: &mut bmp::BmpCodec, ch
         Err(f) => report(
             rep,
             f,
-            Json::obj(vec![("via", Json::s("adj_rib_in_to_bmp_update")), ("peer", Json::s(format!("{} AS{} addpath={}", change.source.remote_addr, change.source.remote_asn, change.addpath))), ("route", exp.json())]),
+            Json::obj(vec![
+                ("via", Json::s("adj_rib_in_to_bmp_update")),
+                (
+                    "peer",
+                    Json::s(format!(
+                        "{} AS{} addpath={}",
+                        change.source.remote_addr, change.source.remote_asn, change.addpath
+                    )),
+                ),
+                ("route", exp.json()),
+            ]),
             hseed,
         ),
     }
 }
 
-fn judge_loc_rib_peer_up(ps: &mut Parsers, bytes: &[u8], router_id: Ipv4Addr, local_asn: u32) -> Result<(), Finding> {
+fn judge_loc_rib_peer_up(
+    ps: &mut Parsers,
+    bytes: &[u8],
+    router_id: Ipv4Addr,
+    local_asn: u32,
+) -> Result<(), Finding> {
     let k = "peer-up";
-    let recs = read_bmp(bytes).map_err(|(c, d)| finding(k, &c, "BMP common header length does not delimit the message", d, bytes))?;
+    let recs = read_bmp(bytes).map_err(|(c, d)| {
+        finding(
+            k,
+            &c,
+            "BMP common header length does not delimit the message",
+            d,
+            bytes,
+        )
+    })?;
     if recs.len() != 1 || recs[0].typ != 3 {
-        return Err(finding(k, "message-count", "one PeerUp message expected", format!("{} messages", recs.len()), bytes));
+        return Err(finding(
+            k,
+            "message-count",
+            "one PeerUp message expected",
+            format!("{} messages", recs.len()),
+            bytes,
+        ));
     }
-    let m = read_bmp_msg(ps, 3, recs[0].body).map_err(|(_, c, d)| finding(k, &format!("loc-rib-{}", c), "Loc-RIB PeerUp is not well-formed", d, bytes))?;
-    let StMsg::PeerUp { hdr, local16, lport, rport, sent, recv } = m else { unreachable!() };
-    let e = HdrExp { ptype: 3, flags: 0, addr: IpAddr::V4(Ipv4Addr::UNSPECIFIED), asn: local_asn, id: router_id.octets(), ts: None };
+    let m = read_bmp_msg(ps, 3, recs[0].body).map_err(|(_, c, d)| {
+        finding(
+            k,
+            &format!("loc-rib-{}", c),
+            "Loc-RIB PeerUp is not well-formed",
+            d,
+            bytes,
+        )
+    })?;
+    let StMsg::PeerUp {
+        hdr,
+        local16,
+        lport,
+        rport,
+        sent,
+        recv,
+    } = m
+    else {
+        unreachable!()
+    };
+    let e = HdrExp {
+        ptype: 3,
+        flags: 0,
+        addr: IpAddr::V4(Ipv4Addr::UNSPECIFIED),
+        asn: local_asn,
+        id: router_id.octets(),
+        ts: None,
+    };
     check_hdr(&hdr, &e).map_err(|(c, d)| finding(k, &format!("loc-rib-{}", c), "per-peer header of the Loc-RIB PeerUp (RFC 9069 4.1: peer type 3, zero-filled address, local AS / BGP ID)", d, bytes))?;
     if local16 != [0u8; 16] || lport != 0 || rport != 0 {
-        return Err(finding(k, "loc-rib-local-address", "RFC 9069 5.1: local address and ports of the Loc-RIB PeerUp are zero", format!("{} {} {}", hex(&local16), lport, rport), bytes));
+        return Err(finding(
+            k,
+            "loc-rib-local-address",
+            "RFC 9069 5.1: local address and ports of the Loc-RIB PeerUp are zero",
+            format!("{} {} {}", hex(&local16), lport, rport),
+            bytes,
+        ));
     }
     for (which, o) in [("sent", &sent), ("received", &recv)] {
         // the fabricated OPEN must give back the router's identity: AS and BGP ID
         if o.as_number != local_asn {
-            return Err(finding(k, "loc-rib-open-as-lost", "the fabricated OPEN of the Loc-RIB PeerUp does not parse back to the local AS (a 4-byte AS without the 4-octet-AS capability reads as AS_TRANS)", format!("{} OPEN parses back as AS{} ({}), local AS is {}", which, o.as_number, open_str(o), local_asn), bytes));
+            return Err(finding(
+                k,
+                "loc-rib-open-as-lost",
+                "the fabricated OPEN of the Loc-RIB PeerUp does not parse back to the local AS (a 4-byte AS without the 4-octet-AS capability reads as AS_TRANS)",
+                format!(
+                    "{} OPEN parses back as AS{} ({}), local AS is {}",
+                    which,
+                    o.as_number,
+                    open_str(o),
+                    local_asn
+                ),
+                bytes,
+            ));
         }
         if o.router_id != u32::from(router_id) {
-            return Err(finding(k, "loc-rib-open-id", "the fabricated OPEN of the Loc-RIB PeerUp does not carry the router id", format!("{} OPEN {}", which, open_str(o)), bytes));
+            return Err(finding(
+                k,
+                "loc-rib-open-id",
+                "the fabricated OPEN of the Loc-RIB PeerUp does not carry the router id",
+                format!("{} OPEN {}", which, open_str(o)),
+                bytes,
+            ));
         }
     }
     if !open_eq(&sent, &recv) {
-        return Err(finding(k, "loc-rib-open-differ", "RFC 9069 5.1: the received OPEN repeats the sent OPEN", format!("{} vs {}", open_str(&sent), open_str(&recv)), bytes));
+        return Err(finding(
+            k,
+            "loc-rib-open-differ",
+            "RFC 9069 5.1: the received OPEN repeats the sent OPEN",
+            format!("{} vs {}", open_str(&sent), open_str(&recv)),
+            bytes,
+        ));
     }
     Ok(())
 }
 
-fn judge_peer_down_bytes(ps: &mut Parsers, bytes: &[u8], hdr: &HdrExp, want_code: u8, want_notif: Option<&bgp::Message>) -> Result<(), Finding> {
+fn judge_peer_down_bytes(
+    ps: &mut Parsers,
+    bytes: &[u8],
+    hdr: &HdrExp,
+    want_code: u8,
+    want_notif: Option<&bgp::Message>,
+) -> Result<(), Finding> {
     let k = "peer-down";
-    let recs = read_bmp(bytes).map_err(|(c, d)| finding(k, &c, "BMP common header length does not delimit the message", d, bytes))?;
+    let recs = read_bmp(bytes).map_err(|(c, d)| {
+        finding(
+            k,
+            &c,
+            "BMP common header length does not delimit the message",
+            d,
+            bytes,
+        )
+    })?;
     if recs.len() != 1 || recs[0].typ != 2 {
-        return Err(finding(k, "message-count", "one PeerDown message expected", format!("{} messages", recs.len()), bytes));
+        return Err(finding(
+            k,
+            "message-count",
+            "one PeerDown message expected",
+            format!("{} messages", recs.len()),
+            bytes,
+        ));
     }
-    let m = read_bmp_msg(ps, 2, recs[0].body).map_err(|(_, c, d)| finding(k, &c, "PeerDown is not well-formed (reason vs data)", d, bytes))?;
-    let StMsg::PeerDown { hdr: h, reason, data } = m else { unreachable!() };
-    check_hdr(&h, hdr).map_err(|(c, d)| finding(k, &c, "per-peer header does not describe the peer", d, bytes))?;
+    let m = read_bmp_msg(ps, 2, recs[0].body).map_err(|(_, c, d)| {
+        finding(
+            k,
+            &c,
+            "PeerDown is not well-formed (reason vs data)",
+            d,
+            bytes,
+        )
+    })?;
+    let StMsg::PeerDown {
+        hdr: h,
+        reason,
+        data,
+    } = m
+    else {
+        unreachable!()
+    };
+    check_hdr(&h, hdr).map_err(|(c, d)| {
+        finding(
+            k,
+            &c,
+            "per-peer header does not describe the peer",
+            d,
+            bytes,
+        )
+    })?;
     if want_code != 0 && reason != want_code {
-        return Err(finding(k, "reason", "PeerDown reason code does not say how the session ended", format!("reason {} expected {}", reason, want_code), bytes));
+        return Err(finding(
+            k,
+            "reason",
+            "PeerDown reason code does not say how the session ended",
+            format!("reason {} expected {}", reason, want_code),
+            bytes,
+        ));
     }
     if let Some(bgp::Message::Notification(n)) = want_notif {
         match ps.parse(&data, false, false) {
             Ok(ParsedMessage::Notification(g)) if notif_eq(&g, n) => {}
-            Ok(ParsedMessage::Notification(g)) => return Err(finding(k, "notification-differs", "NOTIFICATION in PeerDown is not the one that ended the session", format!("got {} want {}", notif_str(&g), notif_str(n)), bytes)),
-            Ok(_) => return Err(finding(k, "notification-type", "PeerDown PDU is not a NOTIFICATION", String::new(), bytes)),
-            Err((c, d)) => return Err(finding(k, &format!("notification-{}", c), "NOTIFICATION in PeerDown not readable by the repository's parser", d, bytes)),
+            Ok(ParsedMessage::Notification(g)) => {
+                return Err(finding(
+                    k,
+                    "notification-differs",
+                    "NOTIFICATION in PeerDown is not the one that ended the session",
+                    format!("got {} want {}", notif_str(&g), notif_str(n)),
+                    bytes,
+                ));
+            }
+            Ok(_) => {
+                return Err(finding(
+                    k,
+                    "notification-type",
+                    "PeerDown PDU is not a NOTIFICATION",
+                    String::new(),
+                    bytes,
+                ));
+            }
+            Err((c, d)) => {
+                return Err(finding(
+                    k,
+                    &format!("notification-{}", c),
+                    "NOTIFICATION in PeerDown not readable by the repository's parser",
+                    d,
+                    bytes,
+                ));
+            }
         }
     }
     Ok(())
@@ -869,7 +1818,11 @@ fn fam_cfg_name(f: Family) -> &'static str {
 fn gen_speakers(rng: &mut Rng, local_asn: u32, v6_ok: bool) -> Vec<SpkCfg> {
     let n = rng.range(2, 4) as usize;
     let mut v = Vec::new();
-    let v6_at = if v6_ok && rng.chance(2, 3) { Some(rng.usize(n)) } else { None };
+    let v6_at = if v6_ok && rng.chance(2, 3) {
+        Some(rng.usize(n))
+    } else {
+        None
+    };
     for i in 0..n {
         let ibgp = rng.chance(1, 4);
         let as4 = !rng.chance(1, 8);
@@ -882,7 +1835,11 @@ fn gen_speakers(rng: &mut Rng, local_asn: u32, v6_ok: bool) -> Vec<SpkCfg> {
         };
         // a speaker without the 4-octet-AS capability cannot be in a 4-byte AS
         let as4 = as4 || asn > 65535;
-        let addr = if v6_at == Some(i) { IpAddr::V6(Ipv6Addr::LOCALHOST) } else { IpAddr::V4(Ipv4Addr::new(127, 0, 0, 2 + i as u8)) };
+        let addr = if v6_at == Some(i) {
+            IpAddr::V6(Ipv6Addr::LOCALHOST)
+        } else {
+            IpAddr::V4(Ipv4Addr::new(127, 0, 0, 2 + i as u8))
+        };
         let mut fams = vec![Family::IPV4];
         if rng.chance(3, 4) {
             fams.push(Family::IPV6);
@@ -893,18 +1850,41 @@ fn gen_speakers(rng: &mut Rng, local_asn: u32, v6_ok: bool) -> Vec<SpkCfg> {
         if rng.chance(1, 4) {
             fams.push(Family::L2VPN_EVPN);
         }
-        let ap_fams: Vec<Family> = fams.iter().copied().filter(|f| (*f == Family::IPV4 || *f == Family::IPV6) && rng.chance(1, 3)).collect();
-        v.push(SpkCfg { addr, asn, ibgp, router_id: Ipv4Addr::new(2, 2, rng.below(250) as u8, 2 + i as u8), hold: *rng.pick(&[0u16, 45, 90, 240]), daemon_hold: *rng.pick(&[30u16, 90, 180]), fams, ap_fams, as4 });
+        let ap_fams: Vec<Family> = fams
+            .iter()
+            .copied()
+            .filter(|f| (*f == Family::IPV4 || *f == Family::IPV6) && rng.chance(1, 3))
+            .collect();
+        v.push(SpkCfg {
+            addr,
+            asn,
+            ibgp,
+            router_id: Ipv4Addr::new(2, 2, rng.below(250) as u8, 2 + i as u8),
+            hold: *rng.pick(&[0u16, 45, 90, 240]),
+            daemon_hold: *rng.pick(&[30u16, 90, 180]),
+            fams,
+            ap_fams,
+            as4,
+        });
     }
     v
 }
 
 fn config_yaml(asn: u32, router_id: Ipv4Addr, bgp_port: u16, spk: &[SpkCfg]) -> String {
-    let mut s = format!("global:\n  config:\n    as: {}\n    router-id: \"{}\"\n    port: {}\nneighbors:\n", asn, router_id, bgp_port);
+    let mut s = format!(
+        "global:\n  config:\n    as: {}\n    router-id: \"{}\"\n    port: {}\nneighbors:\n",
+        asn, router_id, bgp_port
+    );
     for c in spk {
-        s += &format!("  - config:\n      neighbor-address: \"{}\"\n      peer-as: {}\n    transport:\n      config:\n        passive-mode: true\n    timers:\n      config:\n        hold-time: {}\n    afi-safis:\n", c.addr, c.asn, c.daemon_hold);
+        s += &format!(
+            "  - config:\n      neighbor-address: \"{}\"\n      peer-as: {}\n    transport:\n      config:\n        passive-mode: true\n    timers:\n      config:\n        hold-time: {}\n    afi-safis:\n",
+            c.addr, c.asn, c.daemon_hold
+        );
         for f in &c.fams {
-            s += &format!("      - config:\n          afi-safi-name: {}\n", fam_cfg_name(*f));
+            s += &format!(
+                "      - config:\n          afi-safi-name: {}\n",
+                fam_cfg_name(*f)
+            );
             if c.ap_fams.contains(f) {
                 s += "        add-paths:\n          config:\n            receive: true\n";
             }
@@ -914,7 +1894,8 @@ fn config_yaml(asn: u32, router_id: Ipv4Addr, bgp_port: u16, spk: &[SpkCfg]) -> 
 }
 
 fn port_free(p: u16) -> bool {
-    std::net::TcpListener::bind(("0.0.0.0", p)).is_ok() && std::net::TcpListener::bind(("127.0.0.1", p)).is_ok()
+    std::net::TcpListener::bind(("0.0.0.0", p)).is_ok()
+        && std::net::TcpListener::bind(("127.0.0.1", p)).is_ok()
 }
 
 /// Two free ports out of a block that belongs to this process (the daemon binds
@@ -945,13 +1926,18 @@ async fn block_listener() -> Result<tokio::net::TcpListener, String> {
         }
     }
     // the whole block is busy: wait for any port (retries for ~100 s on a shortage of ports)
-    bind_retry(SocketAddr::new(IpAddr::V4(Ipv4Addr::LOCALHOST), 0)).await.map_err(|e| format!("{}; {}", last, e))
+    bind_retry(SocketAddr::new(IpAddr::V4(Ipv4Addr::LOCALHOST), 0))
+        .await
+        .map_err(|e| format!("{}; {}", last, e))
 }
 
 use crate::verif_hooks::{bind_retry, connect_retry, no_time_wait};
 
 fn port_shortage(e: &std::io::Error) -> bool {
-    matches!(e.kind(), std::io::ErrorKind::AddrInUse | std::io::ErrorKind::AddrNotAvailable)
+    matches!(
+        e.kind(),
+        std::io::ErrorKind::AddrInUse | std::io::ErrorKind::AddrNotAvailable
+    )
 }
 
 #[derive(Default)]
@@ -1020,24 +2006,52 @@ fn encode_msg(codec: &mut PeerCodec, m: &bgp::Message) -> Vec<u8> {
     b.to_vec()
 }
 
-async fn spk_connect(cfg: &SpkCfg, idx: usize, bgp_port: u16, step: usize) -> Result<Session, String> {
-    let mut caps: Vec<Capability> = cfg.fams.iter().map(|f| Capability::MultiProtocol(*f)).collect();
+async fn spk_connect(
+    cfg: &SpkCfg,
+    idx: usize,
+    bgp_port: u16,
+    step: usize,
+) -> Result<Session, String> {
+    let mut caps: Vec<Capability> = cfg
+        .fams
+        .iter()
+        .map(|f| Capability::MultiProtocol(*f))
+        .collect();
     caps.push(Capability::RouteRefresh);
     if cfg.as4 {
         caps.push(Capability::FourOctetAsNumber(cfg.asn));
     }
     caps.push(Capability::ExtendedMessage);
     if cfg.addr.is_ipv6() {
-        caps.push(Capability::ExtendedNexthop(vec![(Family::IPV4, Family::AFI_IP6)]));
+        caps.push(Capability::ExtendedNexthop(vec![(
+            Family::IPV4,
+            Family::AFI_IP6,
+        )]));
     }
     if !cfg.ap_fams.is_empty() {
-        caps.push(Capability::AddPath(cfg.ap_fams.iter().map(|f| (*f, 2u8)).collect()));
+        caps.push(Capability::AddPath(
+            cfg.ap_fams.iter().map(|f| (*f, 2u8)).collect(),
+        ));
     }
-    let my_open = Open { as_number: cfg.asn, holdtime: HoldTime::new(cfg.hold).unwrap_or(HoldTime::DISABLED), router_id: u32::from(cfg.router_id), capability: caps.clone() };
-    let dst: SocketAddr = if cfg.addr.is_ipv6() { SocketAddr::new(IpAddr::V6(Ipv6Addr::LOCALHOST), bgp_port) } else { SocketAddr::new(IpAddr::V4(Ipv4Addr::LOCALHOST), bgp_port) };
+    let my_open = Open {
+        as_number: cfg.asn,
+        holdtime: HoldTime::new(cfg.hold).unwrap_or(HoldTime::DISABLED),
+        router_id: u32::from(cfg.router_id),
+        capability: caps.clone(),
+    };
+    let dst: SocketAddr = if cfg.addr.is_ipv6() {
+        SocketAddr::new(IpAddr::V6(Ipv6Addr::LOCALHOST), bgp_port)
+    } else {
+        SocketAddr::new(IpAddr::V4(Ipv4Addr::LOCALHOST), bgp_port)
+    };
     let mut last = String::new();
     for _ in 0..300 {
-        let sock = if cfg.addr.is_ipv6() { tokio::net::TcpSocket::new_v6() } else { tokio::net::TcpSocket::new_v4() }.map_err(|e| e.to_string())?;
+        let sock = if cfg.addr.is_ipv6() {
+            tokio::net::TcpSocket::new_v6()
+        } else {
+            tokio::net::TcpSocket::new_v4()
+        }
+        .map_err(|e| e.to_string())?;
         if let Err(e) = sock.bind(SocketAddr::new(cfg.addr, 0)) {
             last = format!("bind {}: {}", cfg.addr, e);
             if port_shortage(&e) {
@@ -1051,16 +2065,31 @@ async fn spk_connect(cfg: &SpkCfg, idx: usize, bgp_port: u16, step: usize) -> Re
             Err(e) => {
                 last = format!("connect: {}", e);
                 // a temporary shortage of ports is waited out; anything else is retried quickly
-                tokio::time::sleep(Duration::from_millis(if port_shortage(&e) { 500 } else { 10 })).await;
+                tokio::time::sleep(Duration::from_millis(if port_shortage(&e) {
+                    500
+                } else {
+                    10
+                }))
+                .await;
                 continue;
             }
         };
         let _ = stream.set_nodelay(true);
         no_time_wait(&stream);
         let my_port = stream.local_addr().map(|a| a.port()).unwrap_or(0);
-        let (daemon_ip, daemon_port) = stream.peer_addr().map(|a| (a.ip(), a.port())).unwrap_or((dst.ip(), bgp_port));
+        let (daemon_ip, daemon_port) = stream
+            .peer_addr()
+            .map(|a| (a.ip(), a.port()))
+            .unwrap_or((dst.ip(), bgp_port));
         let mut plain = PeerCodec::new();
-        if stream.write_all(&encode_msg(&mut plain, &bgp::Message::Open(my_open.clone()))).await.is_err() {
+        if stream
+            .write_all(&encode_msg(
+                &mut plain,
+                &bgp::Message::Open(my_open.clone()),
+            ))
+            .await
+            .is_err()
+        {
             last = "write OPEN failed".into();
             tokio::time::sleep(Duration::from_millis(5)).await;
             continue;
@@ -1077,7 +2106,11 @@ async fn spk_connect(cfg: &SpkCfg, idx: usize, bgp_port: u16, step: usize) -> Re
                     1 => {
                         if let Ok(ParsedMessage::Open(o)) = PeerCodec::new().parse_message(&pdu) {
                             daemon_open = Some(o);
-                            if stream.write_all(&encode_msg(&mut plain, &bgp::Message::Keepalive)).await.is_err() {
+                            if stream
+                                .write_all(&encode_msg(&mut plain, &bgp::Message::Keepalive))
+                                .await
+                                .is_err()
+                            {
                                 failed = true;
                             }
                         } else {
@@ -1115,7 +2148,13 @@ async fn spk_connect(cfg: &SpkCfg, idx: usize, bgp_port: u16, step: usize) -> Re
         }
         if !established {
             if std::env::var("VERIF_TRACE").is_ok() {
-                eprintln!("[spk_connect retry] {} port {} : {} (got open: {})", cfg.addr, my_port, last, daemon_open.is_some());
+                eprintln!(
+                    "[spk_connect retry] {} port {} : {} (got open: {})",
+                    cfg.addr,
+                    my_port,
+                    last,
+                    daemon_open.is_some()
+                );
             }
             // the previous session of this peer may not be cleaned up yet
             tokio::time::sleep(Duration::from_millis(5)).await;
@@ -1153,7 +2192,25 @@ async fn spk_connect(cfg: &SpkCfg, idx: usize, bgp_port: u16, step: usize) -> Re
                 }
             }
         });
-        return Ok(Session { spk: idx, wr: Some(wr), codec, rx, reader: Some(reader), my_open, daemon_open, my_port, daemon_port, daemon_ip, ap_in, model: BTreeMap::new(), live: Vec::new(), up_step: step, down_step: None, close: None, close_observed: false });
+        return Ok(Session {
+            spk: idx,
+            wr: Some(wr),
+            codec,
+            rx,
+            reader: Some(reader),
+            my_open,
+            daemon_open,
+            my_port,
+            daemon_port,
+            daemon_ip,
+            ap_in,
+            model: BTreeMap::new(),
+            live: Vec::new(),
+            up_step: step,
+            down_step: None,
+            close: None,
+            close_observed: false,
+        });
     }
     Err(last)
 }
@@ -1166,7 +2223,11 @@ fn e2e_attrs(rng: &mut Rng, cfg: &SpkCfg, tag: u32, local_asn: u32) -> Vec<Attri
         path.push(cfg.asn);
     }
     for _ in 0..rng.below(4) {
-        let a = if cfg.as4 && rng.bool() { 4_100_000_000 + rng.below(1000) as u32 } else { 64700 + rng.below(200) as u32 };
+        let a = if cfg.as4 && rng.bool() {
+            4_100_000_000 + rng.below(1000) as u32
+        } else {
+            64700 + rng.below(200) as u32
+        };
         if a != local_asn {
             path.push(a);
         }
@@ -1179,9 +2240,15 @@ fn e2e_attrs(rng: &mut Rng, cfg: &SpkCfg, tag: u32, local_asn: u32) -> Vec<Attri
             b.extend_from_slice(&a.to_be_bytes());
         }
     }
-    let mut v = vec![Attribute::new_with_value(Attribute::ORIGIN, rng.below(3) as u32).unwrap(), Attribute::new_with_bin(Attribute::AS_PATH, b).unwrap(), Attribute::new_with_value(Attribute::MULTI_EXIT_DESC, tag).unwrap()];
+    let mut v = vec![
+        Attribute::new_with_value(Attribute::ORIGIN, rng.below(3) as u32).unwrap(),
+        Attribute::new_with_bin(Attribute::AS_PATH, b).unwrap(),
+        Attribute::new_with_value(Attribute::MULTI_EXIT_DESC, tag).unwrap(),
+    ];
     if cfg.ibgp {
-        v.push(Attribute::new_with_value(Attribute::LOCAL_PREF, 50 + rng.below(200) as u32).unwrap());
+        v.push(
+            Attribute::new_with_value(Attribute::LOCAL_PREF, 50 + rng.below(200) as u32).unwrap(),
+        );
     }
     let ncomm = match rng.below(40) {
         0 => rng.range(1050, 1500) as usize, // attributes alone exceed a 4096-byte frame
@@ -1248,12 +2315,36 @@ impl Station {
         let mut o = 0usize;
         while data.len() - o >= 6 {
             if data[o] != 3 {
-                self.broken = Some(finding("stream", "common-length", "the BMP byte stream does not continue with a message where the previous length field says it should", format!("at stream offset {} a message should start but the version byte is {}; previous message type {:?}", self.off + o, data[o], self.msgs.last().map(|m| match &m.1 { StMsg::Initiation => 4, StMsg::PeerUp { .. } => 3, StMsg::PeerDown { .. } => 2, StMsg::Route { .. } => 0, StMsg::Other(t) => *t })), &data[o.saturating_sub(200)..(o + 64).min(data.len())]));
+                self.broken = Some(finding(
+                    "stream",
+                    "common-length",
+                    "the BMP byte stream does not continue with a message where the previous length field says it should",
+                    format!(
+                        "at stream offset {} a message should start but the version byte is {}; previous message type {:?}",
+                        self.off + o,
+                        data[o],
+                        self.msgs.last().map(|m| match &m.1 {
+                            StMsg::Initiation => 4,
+                            StMsg::PeerUp { .. } => 3,
+                            StMsg::PeerDown { .. } => 2,
+                            StMsg::Route { .. } => 0,
+                            StMsg::Other(t) => *t,
+                        })
+                    ),
+                    &data[o.saturating_sub(200)..(o + 64).min(data.len())],
+                ));
                 return;
             }
-            let l = u32::from_be_bytes([data[o + 1], data[o + 2], data[o + 3], data[o + 4]]) as usize;
+            let l =
+                u32::from_be_bytes([data[o + 1], data[o + 2], data[o + 3], data[o + 4]]) as usize;
             if l < 6 {
-                self.broken = Some(finding("stream", "common-length", "BMP common header length below 6", format!("{}", l), &data[o..(o + 64).min(data.len())]));
+                self.broken = Some(finding(
+                    "stream",
+                    "common-length",
+                    "BMP common header length below 6",
+                    format!("{}", l),
+                    &data[o..(o + 64).min(data.len())],
+                ));
                 return;
             }
             if data.len() - o < l {
@@ -1266,14 +2357,25 @@ impl Station {
                     if let StMsg::Route { hdr, pdu } = &m {
                         for w in pdu.windows(5) {
                             if w[0] == 32 && w[1] == 10 && (240..=250).contains(&w[2]) {
-                                self.seen.insert((hdr.ptype, hdr.flags & 0x50, hdr.addr(), [w[2], w[3], w[4]]));
+                                self.seen.insert((
+                                    hdr.ptype,
+                                    hdr.flags & 0x50,
+                                    hdr.addr(),
+                                    [w[2], w[3], w[4]],
+                                ));
                             }
                         }
                     }
                     self.msgs.push((self.off + o, m));
                 }
                 Err((k, c, d)) => {
-                    self.broken = Some(finding(k, &c, "a BMP message read from the station socket is not well-formed", d, &data[o..o + l]));
+                    self.broken = Some(finding(
+                        k,
+                        &c,
+                        "a BMP message read from the station socket is not well-formed",
+                        d,
+                        &data[o..o + l],
+                    ));
                     return;
                 }
             }
@@ -1287,7 +2389,11 @@ impl Station {
         let mut up_seen = false;
         for (_, m) in &self.msgs {
             match m {
-                StMsg::PeerUp { hdr, rport: r, .. } if hdr.ptype == 0 && hdr.addr() == addr && *r == rport => up_seen = true,
+                StMsg::PeerUp { hdr, rport: r, .. }
+                    if hdr.ptype == 0 && hdr.addr() == addr && *r == rport =>
+                {
+                    up_seen = true
+                }
                 StMsg::PeerDown { hdr, .. } if up_seen && hdr.addr() == addr => return true,
                 _ => {}
             }
@@ -1332,11 +2438,27 @@ struct E2eParams {
 }
 
 async fn e2e_script(rng: &mut Rng, ps: &mut Parsers, prm: &E2eParams, k: u64) -> Outcome {
-    let local_asn = if rng.chance(2, 3) { 65000 } else { 4_200_000_000 + rng.below(50) as u32 };
+    let local_asn = if rng.chance(2, 3) {
+        65000
+    } else {
+        4_200_000_000 + rng.below(50) as u32
+    };
     let router_id = Ipv4Addr::new(10, 255, rng.below(250) as u8, 1);
     let v6_ok = std::net::TcpListener::bind(("::1", 0)).is_ok();
     let cfgs = gen_speakers(rng, local_asn, v6_ok);
-    let mut out = Outcome { local_asn, router_id, cfgs: cfgs.clone(), sessions: Vec::new(), stations: Vec::new(), final_marker: 0, up_at_end: Vec::new(), synced: false, closed_at_end: false, steps: Vec::new(), problem: None };
+    let mut out = Outcome {
+        local_asn,
+        router_id,
+        cfgs: cfgs.clone(),
+        sessions: Vec::new(),
+        stations: Vec::new(),
+        final_marker: 0,
+        up_at_end: Vec::new(),
+        synced: false,
+        closed_at_end: false,
+        steps: Vec::new(),
+        problem: None,
+    };
     let Some((bgp_port, api_port)) = pick_ports(k) else {
         out.problem = Some("no free port in this process's block".into());
         return out;
@@ -1357,10 +2479,20 @@ async fn e2e_script(rng: &mut Rng, ps: &mut Parsers, prm: &E2eParams, k: u64) ->
         }
     };
     // ---- the code under test: the whole daemon
-    tokio::spawn(crate::event::main(Some(conf), false, false, SocketAddr::new(IpAddr::V4(Ipv4Addr::LOCALHOST), api_port)));
+    tokio::spawn(crate::event::main(
+        Some(conf),
+        false,
+        false,
+        SocketAddr::new(IpAddr::V4(Ipv4Addr::LOCALHOST), api_port),
+    ));
     let mut client = None;
     for _ in 0..500 {
-        if let Ok(c) = api::go_bgp_service_client::GoBgpServiceClient::connect(format!("http://127.0.0.1:{}", api_port)).await {
+        if let Ok(c) = api::go_bgp_service_client::GoBgpServiceClient::connect(format!(
+            "http://127.0.0.1:{}",
+            api_port
+        ))
+        .await
+        {
             client = Some(c);
             break;
         }
@@ -1386,8 +2518,24 @@ async fn e2e_script(rng: &mut Rng, ps: &mut Parsers, prm: &E2eParams, k: u64) ->
                 Err(e) => out.problem = Some(format!("station listener: {}", e)),
                 Ok(l) => {
                     let port = l.local_addr().map(|a| a.port()).unwrap_or(0);
-                    let at_connect = if $quiescent { up.iter().flatten().map(|&si| (si, out.sessions[si].model.clone())).collect() } else { Vec::new() };
-                    let r = client.add_bmp(api::AddBmpRequest { address: "127.0.0.1".into(), port: port as u32, policy, statistics_timeout: 0, sys_name: String::new(), sys_descr: String::new() }).await;
+                    let at_connect = if $quiescent {
+                        up.iter()
+                            .flatten()
+                            .map(|&si| (si, out.sessions[si].model.clone()))
+                            .collect()
+                    } else {
+                        Vec::new()
+                    };
+                    let r = client
+                        .add_bmp(api::AddBmpRequest {
+                            address: "127.0.0.1".into(),
+                            port: port as u32,
+                            policy,
+                            statistics_timeout: 0,
+                            sys_name: String::new(),
+                            sys_descr: String::new(),
+                        })
+                        .await;
                     if let Err(e) = r {
                         out.problem = Some(format!("AddBmp: {}", e));
                     } else {
@@ -1404,14 +2552,36 @@ async fn e2e_script(rng: &mut Rng, ps: &mut Parsers, prm: &E2eParams, k: u64) ->
                                                 b2.lock().unwrap().1 = true;
                                                 return;
                                             }
-                                            Ok(n) => b2.lock().unwrap().0.extend_from_slice(&tmp[..n]),
+                                            Ok(n) => {
+                                                b2.lock().unwrap().0.extend_from_slice(&tmp[..n])
+                                            }
                                         }
                                     }
                                 }));
-                                out.steps.push(format!("{}: station {} policy={} quiescent={}", step, out.stations.len(), policy_name(policy), $quiescent));
-                                out.stations.push(Station { policy, port, buf, off: 0, msgs: Vec::new(), broken: None, seen: BTreeSet::new(), quiescent: $quiescent, connect_step: step, at_connect });
+                                out.steps.push(format!(
+                                    "{}: station {} policy={} quiescent={}",
+                                    step,
+                                    out.stations.len(),
+                                    policy_name(policy),
+                                    $quiescent
+                                ));
+                                out.stations.push(Station {
+                                    policy,
+                                    port,
+                                    buf,
+                                    off: 0,
+                                    msgs: Vec::new(),
+                                    broken: None,
+                                    seen: BTreeSet::new(),
+                                    quiescent: $quiescent,
+                                    connect_step: step,
+                                    at_connect,
+                                });
                             }
-                            _ => out.problem = Some("the daemon's BMP client did not connect to the station within 5 s".into()),
+                            _ => out.problem = Some(
+                                "the daemon's BMP client did not connect to the station within 5 s"
+                                    .into(),
+                            ),
                         }
                     }
                 }
@@ -1428,24 +2598,44 @@ async fn e2e_script(rng: &mut Rng, ps: &mut Parsers, prm: &E2eParams, k: u64) ->
                 let Some(si) = slot else { continue };
                 let s = &mut out.sessions[*si];
                 let pfx = [240 + i as u8, (marker >> 8) as u8, marker as u8];
-                let nlri = Nlri::V4(Ipv4Net { addr: Ipv4Addr::new(10, pfx[0], pfx[1], pfx[2]), mask: 32 });
+                let nlri = Nlri::V4(Ipv4Net {
+                    addr: Ipv4Addr::new(10, pfx[0], pfx[1], pfx[2]),
+                    mask: 32,
+                });
                 let ap = s.ap_in.contains(&fam_id(Family::IPV4));
-                let net = PathNlri { path_id: if ap { 7 } else { 0 }, nlri };
+                let net = PathNlri {
+                    path_id: if ap { 7 } else { 0 },
+                    nlri,
+                };
                 let mut path = Vec::new();
                 if !cfgs[i].ibgp {
                     path.extend_from_slice(&[2u8, 1]);
                     path.extend_from_slice(&cfgs[i].asn.to_be_bytes());
                 }
-                let mut attrs = vec![Attribute::new_with_value(Attribute::ORIGIN, 0).unwrap(), Attribute::new_with_bin(Attribute::AS_PATH, path).unwrap()];
+                let mut attrs = vec![
+                    Attribute::new_with_value(Attribute::ORIGIN, 0).unwrap(),
+                    Attribute::new_with_bin(Attribute::AS_PATH, path).unwrap(),
+                ];
                 if cfgs[i].ibgp {
                     attrs.push(Attribute::new_with_value(Attribute::LOCAL_PREF, 100).unwrap());
                 }
                 let nh = Nexthop::V4(Ipv4Addr::new(192, 0, 2, 1 + i as u8));
-                let bytes = encode_msg(&mut s.codec, &bgp::Message::Update(bgp::Update::Reach { family: Family::IPV4, entries: vec![net.clone()], nexthop: Some(nh), attr: Arc::new(attrs.clone()) }));
+                let bytes = encode_msg(
+                    &mut s.codec,
+                    &bgp::Message::Update(bgp::Update::Reach {
+                        family: Family::IPV4,
+                        entries: vec![net.clone()],
+                        nexthop: Some(nh),
+                        attr: Arc::new(attrs.clone()),
+                    }),
+                );
                 if let Some(w) = s.wr.as_mut() {
                     let _ = w.write_all(&bytes).await;
                 }
-                s.model.insert((fam_id(Family::IPV4), net.nlri.to_string(), net.path_id), (attrs_canon(&attrs), nh_str(&Some(nh))));
+                s.model.insert(
+                    (fam_id(Family::IPV4), net.nlri.to_string(), net.path_id),
+                    (attrs_canon(&attrs), nh_str(&Some(nh))),
+                );
                 want.push((cfgs[i].addr, pfx));
             }
             let t0 = Instant::now();
@@ -1460,7 +2650,9 @@ async fn e2e_script(rng: &mut Rng, ps: &mut Parsers, prm: &E2eParams, k: u64) ->
                     for (addr, pfx) in &want {
                         let pre = st.seen.contains(&(0, 0, *addr, *pfx));
                         let post = st.seen.contains(&(0, 0x40, *addr, *pfx));
-                        let loc = st.seen.contains(&(3, 0, IpAddr::V4(Ipv4Addr::UNSPECIFIED), *pfx));
+                        let loc =
+                            st.seen
+                                .contains(&(3, 0, IpAddr::V4(Ipv4Addr::UNSPECIFIED), *pfx));
                         let good = match st.policy {
                             1 => pre,
                             2 => post,
@@ -1478,7 +2670,12 @@ async fn e2e_script(rng: &mut Rng, ps: &mut Parsers, prm: &E2eParams, k: u64) ->
                 }
                 tokio::time::sleep(Duration::from_millis(2)).await;
             }
-            out.steps.push(format!("{}: sync #{} {}", step, marker, if ok { "ok" } else { "TIMEOUT" }));
+            out.steps.push(format!(
+                "{}: sync #{} {}",
+                step,
+                marker,
+                if ok { "ok" } else { "TIMEOUT" }
+            ));
             ok
         }};
     }
@@ -1614,7 +2811,11 @@ async fn e2e_script(rng: &mut Rng, ps: &mut Parsers, prm: &E2eParams, k: u64) ->
     if out.problem.is_none() {
         let _ = sync!();
     }
-    let nsteps = if prm.churn { rng.range(10, 22) } else { rng.range(8, 18) } as usize;
+    let nsteps = if prm.churn {
+        rng.range(10, 22)
+    } else {
+        rng.range(8, 18)
+    } as usize;
     let mut first = true;
     while step < nsteps && out.problem.is_none() {
         step += 1;
@@ -1627,36 +2828,51 @@ async fn e2e_script(rng: &mut Rng, ps: &mut Parsers, prm: &E2eParams, k: u64) ->
             if up[i].is_none() {
                 match spk_connect(&cfgs[i], i, bgp_port, step).await {
                     Ok(s) => {
-                        out.steps.push(format!("{}: speaker {} ({} AS{}) up, port {}, add-path in {:?}", step, i, cfgs[i].addr, cfgs[i].asn, s.my_port, s.ap_in));
+                        out.steps.push(format!(
+                            "{}: speaker {} ({} AS{}) up, port {}, add-path in {:?}",
+                            step, i, cfgs[i].addr, cfgs[i].asn, s.my_port, s.ap_in
+                        ));
                         up[i] = Some(out.sessions.len());
                         out.sessions.push(s);
                     }
-                    Err(e) => out.problem = Some(format!("speaker {} could not establish: {}", i, e)),
+                    Err(e) => {
+                        out.problem = Some(format!("speaker {} could not establish: {}", i, e))
+                    }
                 }
             }
         } else if r < up_w + down_w {
             let kind = *rng.pick(&[CloseKind::Drop, CloseKind::Notify, CloseKind::Provoke]);
             // churn: a station whose snapshot phase overlaps the last routes and the end of this session: the
             // session's live events / PeerDown may reach its serve loop although it never sent a PeerUp for the peer
-            let overlap = if prm.churn && up[i].is_some() && rng.chance(2, 3) { Some(*rng.pick(&[1, 2, 3, 3, 5])) } else { None };
+            let overlap = if prm.churn && up[i].is_some() && rng.chance(2, 3) {
+                Some(*rng.pick(&[1, 2, 3, 3, 5]))
+            } else {
+                None
+            };
             close_session!(i, kind, overlap);
         } else if r < up_w + down_w + 12 {
             let q = rng.chance(1, 2);
             if q && !sync!() {
-                out.problem = Some("watchdog: a marker route did not reach every station within 10 s".into());
+                out.problem =
+                    Some("watchdog: a marker route did not reach every station within 10 s".into());
                 break;
             }
             add_station!(rng.range(1, 5) as i32, q);
             // make sure serve() has finished its snapshot phase before anything else happens
             if q && out.problem.is_none() && !sync!() {
-                out.problem = Some("watchdog: a marker route did not reach every station within 10 s".into());
+                out.problem =
+                    Some("watchdog: a marker route did not reach every station within 10 s".into());
                 break;
             }
         } else if let Some(si) = up[i] {
             // a burst of announcements / withdrawals
             let cfg = &cfgs[i];
             let s = &mut out.sessions[si];
-            let n = if prm.churn { rng.range(1, 6) } else { rng.range(1, 25) } as usize;
+            let n = if prm.churn {
+                rng.range(1, 6)
+            } else {
+                rng.range(1, 25)
+            } as usize;
             let mut wire = Vec::new();
             let mut nsent = 0;
             let mut nwd = 0;
@@ -1665,9 +2881,17 @@ async fn e2e_script(rng: &mut Rng, ps: &mut Parsers, prm: &E2eParams, k: u64) ->
                     let k = rng.usize(s.live.len());
                     let (fam, net) = s.live.swap_remove(k);
                     let ap = s.ap_in.contains(&fam_id(fam));
-                    let exp = RouteExp { family: fam, reach: false, entries: vec![net.clone()], nexthop: None, attrs: Arc::new(Vec::new()), addpath: ap };
+                    let exp = RouteExp {
+                        family: fam,
+                        reach: false,
+                        entries: vec![net.clone()],
+                        nexthop: None,
+                        attrs: Arc::new(Vec::new()),
+                        addpath: ap,
+                    };
                     wire.extend_from_slice(&encode_msg(&mut s.codec, &exp.msg()));
-                    s.model.remove(&(fam_id(fam), net.nlri.to_string(), net.path_id));
+                    s.model
+                        .remove(&(fam_id(fam), net.nlri.to_string(), net.path_id));
                     nwd += 1;
                     continue;
                 }
@@ -1678,19 +2902,58 @@ async fn e2e_script(rng: &mut Rng, ps: &mut Parsers, prm: &E2eParams, k: u64) ->
                 let entries: Vec<PathNlri> = (0..cnt)
                     .map(|_| {
                         let nlri = if fam == Family::IPV4 {
-                            if many { Nlri::V4(Ipv4Net { addr: Ipv4Addr::new(20 + rng.below(100) as u8, rng.below(256) as u8, rng.below(256) as u8, 0), mask: 24 }) } else { conv_v4_prefix(rng.usize(10)) }
+                            if many {
+                                Nlri::V4(Ipv4Net {
+                                    addr: Ipv4Addr::new(
+                                        20 + rng.below(100) as u8,
+                                        rng.below(256) as u8,
+                                        rng.below(256) as u8,
+                                        0,
+                                    ),
+                                    mask: 24,
+                                })
+                            } else {
+                                conv_v4_prefix(rng.usize(10))
+                            }
                         } else if fam == Family::IPV6 {
-                            if many { Nlri::V6(Ipv6Net { addr: Ipv6Addr::new(0x2001, 0xdb8, rng.below(65536) as u16, rng.below(65536) as u16, 0, 0, 0, 0), mask: 64 }) } else { conv_v6_prefix(rng.usize(6)) }
+                            if many {
+                                Nlri::V6(Ipv6Net {
+                                    addr: Ipv6Addr::new(
+                                        0x2001,
+                                        0xdb8,
+                                        rng.below(65536) as u16,
+                                        rng.below(65536) as u16,
+                                        0,
+                                        0,
+                                        0,
+                                        0,
+                                    ),
+                                    mask: 64,
+                                })
+                            } else {
+                                conv_v6_prefix(rng.usize(6))
+                            }
                         } else {
                             gen_nlri(rng, fam, true)
                         };
-                        PathNlri { path_id: if ap { rng.range(1, 3) as u32 } else { 0 }, nlri }
+                        PathNlri {
+                            path_id: if ap { rng.range(1, 3) as u32 } else { 0 },
+                            nlri,
+                        }
                     })
                     .collect();
                 let nh = if fam == Family::IPV4 {
-                    if cfg.addr.is_ipv6() && rng.chance(2, 3) { Nexthop::V6(rand_v6(rng)) } else { Nexthop::V4(rand_v4(rng)) }
+                    if cfg.addr.is_ipv6() && rng.chance(2, 3) {
+                        Nexthop::V6(rand_v6(rng))
+                    } else {
+                        Nexthop::V4(rand_v4(rng))
+                    }
                 } else if fam == Family::IPV6 {
-                    if rng.chance(1, 3) { Nexthop::V6LinkLocal(rand_v6(rng), rand_ll(rng)) } else { Nexthop::V6(rand_v6(rng)) }
+                    if rng.chance(1, 3) {
+                        Nexthop::V6LinkLocal(rand_v6(rng), rand_ll(rng))
+                    } else {
+                        Nexthop::V6(rand_v6(rng))
+                    }
                 } else if rng.bool() {
                     Nexthop::V4(rand_v4(rng))
                 } else {
@@ -1698,13 +2961,23 @@ async fn e2e_script(rng: &mut Rng, ps: &mut Parsers, prm: &E2eParams, k: u64) ->
                 };
                 tag += 1;
                 let attrs = Arc::new(e2e_attrs(rng, cfg, tag, local_asn));
-                let exp = RouteExp { family: fam, reach: true, entries: entries.clone(), nexthop: Some(nh), attrs: attrs.clone(), addpath: ap };
+                let exp = RouteExp {
+                    family: fam,
+                    reach: true,
+                    entries: entries.clone(),
+                    nexthop: Some(nh),
+                    attrs: attrs.clone(),
+                    addpath: ap,
+                };
                 if exp_bgp_stable(ps, &exp, !cfg.as4).is_err() {
                     continue;
                 }
                 wire.extend_from_slice(&encode_msg(&mut s.codec, &exp.msg()));
                 for e in &entries {
-                    s.model.insert((fam_id(fam), e.nlri.to_string(), e.path_id), (attrs_canon(&attrs), nh_str(&Some(nh))));
+                    s.model.insert(
+                        (fam_id(fam), e.nlri.to_string(), e.path_id),
+                        (attrs_canon(&attrs), nh_str(&Some(nh))),
+                    );
                     if !s.live.iter().any(|(f, n)| *f == fam && n == e) {
                         s.live.push((fam, e.clone()));
                     }
@@ -1714,7 +2987,10 @@ async fn e2e_script(rng: &mut Rng, ps: &mut Parsers, prm: &E2eParams, k: u64) ->
             if let Some(w) = s.wr.as_mut() {
                 let _ = w.write_all(&wire).await;
             }
-            out.steps.push(format!("{}: speaker {} announces {} routes, withdraws {}", step, i, nsent, nwd));
+            out.steps.push(format!(
+                "{}: speaker {} announces {} routes, withdraws {}",
+                step, i, nsent, nwd
+            ));
         }
     }
     if out.problem.is_none() && up.iter().all(|u| u.is_none()) {
@@ -1723,7 +2999,10 @@ async fn e2e_script(rng: &mut Rng, ps: &mut Parsers, prm: &E2eParams, k: u64) ->
         let i = rng.usize(cfgs.len());
         match spk_connect(&cfgs[i], i, bgp_port, step).await {
             Ok(s) => {
-                out.steps.push(format!("{}: speaker {} ({} AS{}) up, port {}, add-path in {:?}", step, i, cfgs[i].addr, cfgs[i].asn, s.my_port, s.ap_in));
+                out.steps.push(format!(
+                    "{}: speaker {} ({} AS{}) up, port {}, add-path in {:?}",
+                    step, i, cfgs[i].addr, cfgs[i].asn, s.my_port, s.ap_in
+                ));
                 up[i] = Some(out.sessions.len());
                 out.sessions.push(s);
             }
@@ -1740,7 +3019,9 @@ async fn e2e_script(rng: &mut Rng, ps: &mut Parsers, prm: &E2eParams, k: u64) ->
         // the markers of the second round are live events that follow everything sent before
         out.synced = sync!() && sync!();
         if !out.synced {
-            out.problem = Some("watchdog: the final marker routes did not reach every station within 10 s".into());
+            out.problem = Some(
+                "watchdog: the final marker routes did not reach every station within 10 s".into(),
+            );
         }
     }
     // snapshot of who is up at the (synchronised) end, before the closing phase
@@ -1749,7 +3030,9 @@ async fn e2e_script(rng: &mut Rng, ps: &mut Parsers, prm: &E2eParams, k: u64) ->
     if out.problem.is_none() && (prm.churn || rng.chance(1, 2)) {
         step += 1;
         out.closed_at_end = true;
-        let idxs: Vec<usize> = (0..cfgs.len()).filter(|i| up[*i].is_some() && rng.chance(2, 3)).collect();
+        let idxs: Vec<usize> = (0..cfgs.len())
+            .filter(|i| up[*i].is_some() && rng.chance(2, 3))
+            .collect();
         let mut closed: Vec<IpAddr> = Vec::new();
         for i in idxs {
             let kind = *rng.pick(&[CloseKind::Drop, CloseKind::Notify, CloseKind::Provoke]);
@@ -1815,9 +3098,22 @@ fn station_codec(sent: &Open, recv: &Open, adj_out: bool) -> PeerCodec {
     let mut c = PeerCodec::new();
     c.extended_length = true;
     for (f, _) in FAMILIES {
-        let (lm, rm) = (l.get(&fam_id(*f)).copied().unwrap_or(0), r.get(&fam_id(*f)).copied().unwrap_or(0));
-        let ap = if adj_out { lm & 2 != 0 && rm & 1 != 0 } else { lm & 1 != 0 && rm & 2 != 0 };
-        c.set_family(*f, FamilyState { addpath_rx: ap, addpath_tx: ap });
+        let (lm, rm) = (
+            l.get(&fam_id(*f)).copied().unwrap_or(0),
+            r.get(&fam_id(*f)).copied().unwrap_or(0),
+        );
+        let ap = if adj_out {
+            lm & 2 != 0 && rm & 1 != 0
+        } else {
+            lm & 1 != 0 && rm & 2 != 0
+        };
+        c.set_family(
+            *f,
+            FamilyState {
+                addpath_rx: ap,
+                addpath_tx: ap,
+            },
+        );
     }
     c
 }
@@ -1825,36 +3121,88 @@ fn station_codec(sent: &Open, recv: &Open, adj_out: bool) -> PeerCodec {
 fn open_diff(got: &Open, want: &Open) -> Vec<String> {
     let mut v = Vec::new();
     if got.as_number != want.as_number {
-        v.push(format!("AS {} (on the wire: {})", got.as_number, want.as_number));
+        v.push(format!(
+            "AS {} (on the wire: {})",
+            got.as_number, want.as_number
+        ));
     }
     if got.holdtime.seconds() != want.holdtime.seconds() {
-        v.push(format!("hold time {} (on the wire: {})", got.holdtime.seconds(), want.holdtime.seconds()));
+        v.push(format!(
+            "hold time {} (on the wire: {})",
+            got.holdtime.seconds(),
+            want.holdtime.seconds()
+        ));
     }
     if got.router_id != want.router_id {
-        v.push(format!("BGP identifier {} (on the wire: {})", Ipv4Addr::from(got.router_id), Ipv4Addr::from(want.router_id)));
+        v.push(format!(
+            "BGP identifier {} (on the wire: {})",
+            Ipv4Addr::from(got.router_id),
+            Ipv4Addr::from(want.router_id)
+        ));
     }
     if format!("{:?}", got.capability) != format!("{:?}", want.capability) {
-        v.push(format!("capabilities {:?} (on the wire: {:?})", got.capability, want.capability));
+        v.push(format!(
+            "capabilities {:?} (on the wire: {:?})",
+            got.capability, want.capability
+        ));
     }
     v
 }
 
-fn check_loc_rib_peer_up(hdr: &PeerHdr, local16: &[u8; 16], lport: u16, rport: u16, sent: &Open, recv: &Open, router_id: Ipv4Addr, local_asn: u32) -> Result<(), (String, &'static str, String)> {
-    let e = HdrExp { ptype: 3, flags: 0, addr: IpAddr::V4(Ipv4Addr::UNSPECIFIED), asn: local_asn, id: router_id.octets(), ts: None };
+fn check_loc_rib_peer_up(
+    hdr: &PeerHdr,
+    local16: &[u8; 16],
+    lport: u16,
+    rport: u16,
+    sent: &Open,
+    recv: &Open,
+    router_id: Ipv4Addr,
+    local_asn: u32,
+) -> Result<(), (String, &'static str, String)> {
+    let e = HdrExp {
+        ptype: 3,
+        flags: 0,
+        addr: IpAddr::V4(Ipv4Addr::UNSPECIFIED),
+        asn: local_asn,
+        id: router_id.octets(),
+        ts: None,
+    };
     check_hdr(hdr, &e).map_err(|(c, d)| (format!("loc-rib-{}", c), "per-peer header of the Loc-RIB PeerUp (RFC 9069 4.1: peer type 3, zero-filled address, local AS / BGP ID)", d))?;
     if *local16 != [0u8; 16] || lport != 0 || rport != 0 {
-        return Err(("loc-rib-local-address".into(), "RFC 9069 5.1: local address and ports of the Loc-RIB PeerUp are zero", format!("{} {} {}", hex(local16), lport, rport)));
+        return Err((
+            "loc-rib-local-address".into(),
+            "RFC 9069 5.1: local address and ports of the Loc-RIB PeerUp are zero",
+            format!("{} {} {}", hex(local16), lport, rport),
+        ));
     }
     for (which, o) in [("sent", sent), ("received", recv)] {
         if o.as_number != local_asn {
-            return Err(("loc-rib-open-as-lost".into(), "the fabricated OPEN of the Loc-RIB PeerUp does not parse back to the local AS (a 4-byte AS without the 4-octet-AS capability reads as AS_TRANS)", format!("{} OPEN parses back as AS{} ({}), local AS is {}", which, o.as_number, open_str(o), local_asn)));
+            return Err((
+                "loc-rib-open-as-lost".into(),
+                "the fabricated OPEN of the Loc-RIB PeerUp does not parse back to the local AS (a 4-byte AS without the 4-octet-AS capability reads as AS_TRANS)",
+                format!(
+                    "{} OPEN parses back as AS{} ({}), local AS is {}",
+                    which,
+                    o.as_number,
+                    open_str(o),
+                    local_asn
+                ),
+            ));
         }
         if o.router_id != u32::from(router_id) {
-            return Err(("loc-rib-open-id".into(), "the fabricated OPEN of the Loc-RIB PeerUp does not carry the router id", format!("{} OPEN {}", which, open_str(o))));
+            return Err((
+                "loc-rib-open-id".into(),
+                "the fabricated OPEN of the Loc-RIB PeerUp does not carry the router id",
+                format!("{} OPEN {}", which, open_str(o)),
+            ));
         }
     }
     if !open_eq(sent, recv) {
-        return Err(("loc-rib-open-differ".into(), "RFC 9069 5.1: the received OPEN repeats the sent OPEN", format!("{} vs {}", open_str(sent), open_str(recv))));
+        return Err((
+            "loc-rib-open-differ".into(),
+            "RFC 9069 5.1: the received OPEN repeats the sent OPEN",
+            format!("{} vs {}", open_str(sent), open_str(recv)),
+        ));
     }
     Ok(())
 }
@@ -1866,11 +3214,21 @@ struct UpInfo {
     from_global: bool,
 }
 
-fn map_diff(got: &BTreeMap<RouteKey, RouteVal>, want: &BTreeMap<RouteKey, RouteVal>) -> (&'static str, String) {
+fn map_diff(
+    got: &BTreeMap<RouteKey, RouteVal>,
+    want: &BTreeMap<RouteKey, RouteVal>,
+) -> (&'static str, String) {
     let missing: Vec<&RouteKey> = want.keys().filter(|k| !got.contains_key(*k)).collect();
     let extra: Vec<&RouteKey> = got.keys().filter(|k| !want.contains_key(*k)).collect();
-    let differ: Vec<&RouteKey> = want.keys().filter(|k| got.get(*k).is_some_and(|g| g != &want[*k])).collect();
-    let strip = |v: &[&RouteKey]| v.iter().map(|k| (k.0, k.1.clone())).collect::<BTreeSet<_>>();
+    let differ: Vec<&RouteKey> = want
+        .keys()
+        .filter(|k| got.get(*k).is_some_and(|g| g != &want[*k]))
+        .collect();
+    let strip = |v: &[&RouteKey]| {
+        v.iter()
+            .map(|k| (k.0, k.1.clone()))
+            .collect::<BTreeSet<_>>()
+    };
     let clause = if !missing.is_empty() && !extra.is_empty() && strip(&missing) == strip(&extra) {
         "path-id-differs"
     } else if !missing.is_empty() {
@@ -1882,9 +3240,40 @@ fn map_diff(got: &BTreeMap<RouteKey, RouteVal>, want: &BTreeMap<RouteKey, RouteV
     } else {
         "attrs-differ"
     };
-    let show = |v: &[&RouteKey]| v.iter().take(4).map(|k| format!("{:?}", k)).collect::<Vec<_>>().join(", ");
-    let d0 = differ.first().map(|k| format!("{:?}: station has [{}] nh {} ; announced [{}] nh {}", k, short(&got[*k].0, 300), got[*k].1, short(&want[*k].0, 300), want[*k].1)).unwrap_or_default();
-    (clause, format!("announced {} routes, station holds {}; missing {} [{}]; unexpected {} [{}]; differing {} {}", want.len(), got.len(), missing.len(), show(&missing), extra.len(), show(&extra), differ.len(), d0))
+    let show = |v: &[&RouteKey]| {
+        v.iter()
+            .take(4)
+            .map(|k| format!("{:?}", k))
+            .collect::<Vec<_>>()
+            .join(", ")
+    };
+    let d0 = differ
+        .first()
+        .map(|k| {
+            format!(
+                "{:?}: station has [{}] nh {} ; announced [{}] nh {}",
+                k,
+                short(&got[*k].0, 300),
+                got[*k].1,
+                short(&want[*k].0, 300),
+                want[*k].1
+            )
+        })
+        .unwrap_or_default();
+    (
+        clause,
+        format!(
+            "announced {} routes, station holds {}; missing {} [{}]; unexpected {} [{}]; differing {} {}",
+            want.len(),
+            got.len(),
+            missing.len(),
+            show(&missing),
+            extra.len(),
+            show(&extra),
+            differ.len(),
+            d0
+        ),
+    )
 }
 
 fn judge_station_c19(rep: &mut Report, ps: &mut Parsers, out: &Outcome, sti: usize, hseed: u64) {
@@ -1892,16 +3281,50 @@ fn judge_station_c19(rep: &mut Report, ps: &mut Parsers, out: &Outcome, sti: usi
     let pol = policy_name(st.policy);
     let ctx = |extra: Vec<(&str, Json)>| -> Json {
         let mut v = vec![
-            ("station", Json::s(format!("#{} policy={} connected at step {} quiescent={}", sti, pol, st.connect_step, st.quiescent))),
-            ("daemon", Json::s(format!("AS{} router-id {}", out.local_asn, out.router_id))),
-            ("speakers", Json::strs(out.cfgs.iter().map(|c| format!("{} AS{} id {} hold {} (daemon hold {}) fams {:?} add-path {:?} as4={}", c.addr, c.asn, c.router_id, c.hold, c.daemon_hold, c.fams.iter().map(|f| fam_name(*f)).collect::<Vec<_>>(), c.ap_fams.iter().map(|f| fam_name(*f)).collect::<Vec<_>>(), c.as4)))),
+            (
+                "station",
+                Json::s(format!(
+                    "#{} policy={} connected at step {} quiescent={}",
+                    sti, pol, st.connect_step, st.quiescent
+                )),
+            ),
+            (
+                "daemon",
+                Json::s(format!("AS{} router-id {}", out.local_asn, out.router_id)),
+            ),
+            (
+                "speakers",
+                Json::strs(out.cfgs.iter().map(|c| {
+                    format!(
+                        "{} AS{} id {} hold {} (daemon hold {}) fams {:?} add-path {:?} as4={}",
+                        c.addr,
+                        c.asn,
+                        c.router_id,
+                        c.hold,
+                        c.daemon_hold,
+                        c.fams.iter().map(|f| fam_name(*f)).collect::<Vec<_>>(),
+                        c.ap_fams.iter().map(|f| fam_name(*f)).collect::<Vec<_>>(),
+                        c.as4
+                    )
+                })),
+            ),
             ("script", Json::strs(out.steps.iter().cloned())),
         ];
         v.extend(extra);
         Json::obj(v)
     };
     if let Some(f) = &st.broken {
-        report(rep, Finding { sig: f.sig.clone(), what: f.what.clone(), detail: f.detail.clone(), bytes: f.bytes.clone() }, ctx(vec![]), hseed);
+        report(
+            rep,
+            Finding {
+                sig: f.sig.clone(),
+                what: f.what.clone(),
+                detail: f.detail.clone(),
+                bytes: f.bytes.clone(),
+            },
+            ctx(vec![]),
+            hseed,
+        );
     }
     let want_pre = matches!(st.policy, 1 | 3 | 5);
     let want_post = matches!(st.policy, 2 | 3 | 5);
@@ -1918,62 +3341,182 @@ fn judge_station_c19(rep: &mut Report, ps: &mut Parsers, out: &Outcome, sti: usi
     }
     let mut final_done = !out.synced;
     let mk = out.final_marker;
-    let marker_key = |spk: usize, pid: u32| -> RouteKey { (fam_id(Family::IPV4), format!("10.{}.{}.{}/32", 240 + spk, (mk >> 8) & 255, mk & 255), pid) };
+    let marker_key = |spk: usize, pid: u32| -> RouteKey {
+        (
+            fam_id(Family::IPV4),
+            format!("10.{}.{}.{}/32", 240 + spk, (mk >> 8) & 255, mk & 255),
+            pid,
+        )
+    };
 
     for (mi, (_off, m)) in st.msgs.iter().enumerate() {
         rep.eval();
         match m {
-            StMsg::Initiation => rep.count(if mi == 0 { "e2e:initiation-first" } else { "e2e:initiation-later" }),
+            StMsg::Initiation => rep.count(if mi == 0 {
+                "e2e:initiation-first"
+            } else {
+                "e2e:initiation-later"
+            }),
             StMsg::Other(t) => rep.count(&format!("unjudged:e2e-message-type-{}", t)),
-            StMsg::PeerUp { hdr, local16, lport, rport, sent, recv } if hdr.ptype == 3 => {
-                match check_loc_rib_peer_up(hdr, local16, *lport, *rport, sent, recv, out.router_id, out.local_asn) {
+            StMsg::PeerUp {
+                hdr,
+                local16,
+                lport,
+                rport,
+                sent,
+                recv,
+            } if hdr.ptype == 3 => {
+                match check_loc_rib_peer_up(
+                    hdr,
+                    local16,
+                    *lport,
+                    *rport,
+                    sent,
+                    recv,
+                    out.router_id,
+                    out.local_asn,
+                ) {
                     Ok(()) => {
                         rep.count("e2e:peer-up/loc-rib");
-                        rep.nontrivial(fnv64(format!("locup{}{}", out.local_asn, out.router_id).as_bytes()));
+                        rep.nontrivial(fnv64(
+                            format!("locup{}{}", out.local_asn, out.router_id).as_bytes(),
+                        ));
                     }
-                    Err((c, what, d)) => report(rep, finding("peer-up", &c, what, d, &[]), ctx(vec![]), hseed),
+                    Err((c, what, d)) => report(
+                        rep,
+                        finding("peer-up", &c, what, d, &[]),
+                        ctx(vec![]),
+                        hseed,
+                    ),
                 }
             }
-            StMsg::PeerUp { hdr, local16, lport, rport, sent, recv } => {
+            StMsg::PeerUp {
+                hdr,
+                local16,
+                lport,
+                rport,
+                sent,
+                recv,
+            } => {
                 let addr = hdr.addr();
-                let sess = out.sessions.iter().position(|s| out.cfgs[s.spk].addr == addr && s.my_port == *rport);
+                let sess = out
+                    .sessions
+                    .iter()
+                    .position(|s| out.cfgs[s.spk].addr == addr && s.my_port == *rport);
                 // reconstructed from Global (Peer::bmp_peer_up) or a live BgpEvent::PeerUp?  The session was established
                 // before the station connected and nothing but PeerUps precede it (heuristic; used for counters / witnesses only)
-                let from_global = sess.is_some_and(|si| out.sessions[si].up_step < st.connect_step) && st.msgs[..mi].iter().all(|(_, m)| matches!(m, StMsg::Initiation | StMsg::PeerUp { .. }));
+                let from_global = sess.is_some_and(|si| out.sessions[si].up_step < st.connect_step)
+                    && st.msgs[..mi]
+                        .iter()
+                        .all(|(_, m)| matches!(m, StMsg::Initiation | StMsg::PeerUp { .. }));
                 let label = if from_global { "from-global" } else { "live" };
                 if up.contains_key(&addr) {
                     rep.count("unjudged:e2e-duplicate-peer-up");
                 }
-                up.insert(addr, UpInfo { sess, cin: station_codec(sent, recv, false), cout: station_codec(sent, recv, true), from_global });
+                up.insert(
+                    addr,
+                    UpInfo {
+                        sess,
+                        cin: station_codec(sent, recv, false),
+                        cout: station_codec(sent, recv, true),
+                        from_global,
+                    },
+                );
                 let Some(si) = sess else {
                     rep.count("unjudged:e2e-peer-up-of-unrecorded-session");
                     continue;
                 };
                 let s = &out.sessions[si];
                 let cfg = &out.cfgs[s.spk];
-                let e = HdrExp { ptype: 0, flags: 0, addr: cfg.addr, asn: cfg.asn, id: cfg.router_id.octets(), ts: None };
+                let e = HdrExp {
+                    ptype: 0,
+                    flags: 0,
+                    addr: cfg.addr,
+                    asn: cfg.asn,
+                    id: cfg.router_id.octets(),
+                    ts: None,
+                };
                 let mut fail: Option<Finding> = None;
                 if let Err((c, d)) = check_hdr(hdr, &e) {
-                    fail = Some(finding("peer-up", &c, "per-peer header of the PeerUp does not describe the peer", d, &[]));
+                    fail = Some(finding(
+                        "peer-up",
+                        &c,
+                        "per-peer header of the PeerUp does not describe the peer",
+                        d,
+                        &[],
+                    ));
                 } else if *local16 != ip16(&s.daemon_ip) {
-                    fail = Some(finding("peer-up", "local-address", "PeerUp local address is not the address the session's TCP connection ends on", format!("{} expected {}", hex(local16), s.daemon_ip), &[]));
+                    fail = Some(finding(
+                        "peer-up",
+                        "local-address",
+                        "PeerUp local address is not the address the session's TCP connection ends on",
+                        format!("{} expected {}", hex(local16), s.daemon_ip),
+                        &[],
+                    ));
                 } else if *lport != s.daemon_port || *rport != s.my_port {
-                    fail = Some(finding("peer-up", "ports", "PeerUp ports are not the ports of the session's TCP connection", format!("local {} remote {} expected {} / {}", lport, rport, s.daemon_port, s.my_port), &[]));
+                    fail = Some(finding(
+                        "peer-up",
+                        "ports",
+                        "PeerUp ports are not the ports of the session's TCP connection",
+                        format!(
+                            "local {} remote {} expected {} / {}",
+                            lport, rport, s.daemon_port, s.my_port
+                        ),
+                        &[],
+                    ));
                 } else {
                     let ds = open_diff(sent, &s.daemon_open);
                     let dr = open_diff(recv, &s.my_open);
                     if !ds.is_empty() {
-                        fail = Some(finding("peer-up", "sent-open-differs", "the Sent OPEN in the PeerUp is not the OPEN the daemon sent on this session", format!("PeerUp ({}) says {}; differing: {}", label, open_str(sent), ds.join("; ")), &[]));
+                        fail = Some(finding(
+                            "peer-up",
+                            "sent-open-differs",
+                            "the Sent OPEN in the PeerUp is not the OPEN the daemon sent on this session",
+                            format!(
+                                "PeerUp ({}) says {}; differing: {}",
+                                label,
+                                open_str(sent),
+                                ds.join("; ")
+                            ),
+                            &[],
+                        ));
                     } else if !dr.is_empty() {
-                        fail = Some(finding("peer-up", "received-open-differs", "the Received OPEN in the PeerUp is not the OPEN the peer sent on this session", format!("PeerUp ({}) says {}; differing: {}", label, open_str(recv), dr.join("; ")), &[]));
+                        fail = Some(finding(
+                            "peer-up",
+                            "received-open-differs",
+                            "the Received OPEN in the PeerUp is not the OPEN the peer sent on this session",
+                            format!(
+                                "PeerUp ({}) says {}; differing: {}",
+                                label,
+                                open_str(recv),
+                                dr.join("; ")
+                            ),
+                            &[],
+                        ));
                     }
                 }
                 match fail {
-                    Some(f) => report(rep, f, ctx(vec![("peer", Json::s(cfg.addr.to_string())), ("peer_up_origin", Json::s(label)), ("daemon_open_on_wire", Json::s(open_str(&s.daemon_open))), ("peer_open_on_wire", Json::s(open_str(&s.my_open)))]), hseed),
+                    Some(f) => report(
+                        rep,
+                        f,
+                        ctx(vec![
+                            ("peer", Json::s(cfg.addr.to_string())),
+                            ("peer_up_origin", Json::s(label)),
+                            ("daemon_open_on_wire", Json::s(open_str(&s.daemon_open))),
+                            ("peer_open_on_wire", Json::s(open_str(&s.my_open))),
+                        ]),
+                        hseed,
+                    ),
                     None => {
                         rep.count(&format!("e2e:peer-up/{}", label));
-                        rep.count(if addr.is_ipv6() { "e2e:peer-up/v6" } else { "e2e:peer-up/v4" });
-                        rep.nontrivial(fnv64(format!("up{}{}{:?}", open_str(sent), open_str(recv), addr).as_bytes()));
+                        rep.count(if addr.is_ipv6() {
+                            "e2e:peer-up/v6"
+                        } else {
+                            "e2e:peer-up/v4"
+                        });
+                        rep.nontrivial(fnv64(
+                            format!("up{}{}{:?}", open_str(sent), open_str(recv), addr).as_bytes(),
+                        ));
                     }
                 }
             }
@@ -1987,10 +3530,23 @@ fn judge_station_c19(rep: &mut Report, ps: &mut Parsers, out: &Outcome, sti: usi
                 let Some(si) = info.sess else { continue };
                 let s = &out.sessions[si];
                 let cfg = &out.cfgs[s.spk];
-                let e = HdrExp { ptype: 0, flags: 0, addr: cfg.addr, asn: cfg.asn, id: cfg.router_id.octets(), ts: None };
+                let e = HdrExp {
+                    ptype: 0,
+                    flags: 0,
+                    addr: cfg.addr,
+                    asn: cfg.asn,
+                    id: cfg.router_id.octets(),
+                    ts: None,
+                };
                 let mut fail: Option<Finding> = None;
                 if let Err((c, d)) = check_hdr(hdr, &e) {
-                    fail = Some(finding("peer-down", &c, "per-peer header of the PeerDown does not describe the peer", d, &[]));
+                    fail = Some(finding(
+                        "peer-down",
+                        &c,
+                        "per-peer header of the PeerDown does not describe the peer",
+                        d,
+                        &[],
+                    ));
                 } else if let Some(cl) = &s.close {
                     let parsed = if *reason == 1 || *reason == 3 {
                         match ps.parse(data, false, false) {
@@ -2003,9 +3559,30 @@ fn judge_station_c19(rep: &mut Report, ps: &mut Parsers, out: &Outcome, sti: usi
                     match (cl.kind, &cl.sent, &cl.received) {
                         (CloseKind::Notify, Some(n), _) => {
                             if *reason != 3 {
-                                fail = Some(finding("peer-down", "reason/remote-notification", "the peer ended the session with a NOTIFICATION; the PeerDown does not say so (reason 3 + the NOTIFICATION)", format!("reason {} data {}; peer sent {}", reason, hex(data), notif_str(n)), &[]));
+                                fail = Some(finding(
+                                    "peer-down",
+                                    "reason/remote-notification",
+                                    "the peer ended the session with a NOTIFICATION; the PeerDown does not say so (reason 3 + the NOTIFICATION)",
+                                    format!(
+                                        "reason {} data {}; peer sent {}",
+                                        reason,
+                                        hex(data),
+                                        notif_str(n)
+                                    ),
+                                    &[],
+                                ));
                             } else if !parsed.as_ref().is_some_and(|g| notif_eq(g, n)) {
-                                fail = Some(finding("peer-down", "notification-differs/remote", "NOTIFICATION in the PeerDown is not the one the peer sent", format!("PeerDown carries {:?}; peer sent {}", parsed.as_ref().map(notif_str), notif_str(n)), &[]));
+                                fail = Some(finding(
+                                    "peer-down",
+                                    "notification-differs/remote",
+                                    "NOTIFICATION in the PeerDown is not the one the peer sent",
+                                    format!(
+                                        "PeerDown carries {:?}; peer sent {}",
+                                        parsed.as_ref().map(notif_str),
+                                        notif_str(n)
+                                    ),
+                                    &[],
+                                ));
                             }
                         }
                         (CloseKind::Provoke, _, Some(raw)) => {
@@ -2015,15 +3592,42 @@ fn judge_station_c19(rep: &mut Report, ps: &mut Parsers, out: &Outcome, sti: usi
                             };
                             if let Some(n) = wire {
                                 if *reason != 1 {
-                                    fail = Some(finding("peer-down", "reason/local-notification", "the daemon ended the session with a NOTIFICATION; the PeerDown does not say so (reason 1 + the NOTIFICATION)", format!("reason {} data {}; daemon sent {}", reason, hex(data), notif_str(&n)), &[]));
+                                    fail = Some(finding(
+                                        "peer-down",
+                                        "reason/local-notification",
+                                        "the daemon ended the session with a NOTIFICATION; the PeerDown does not say so (reason 1 + the NOTIFICATION)",
+                                        format!(
+                                            "reason {} data {}; daemon sent {}",
+                                            reason,
+                                            hex(data),
+                                            notif_str(&n)
+                                        ),
+                                        &[],
+                                    ));
                                 } else if !parsed.as_ref().is_some_and(|g| notif_eq(g, &n)) {
-                                    fail = Some(finding("peer-down", "notification-differs/local", "NOTIFICATION in the PeerDown is not the one the daemon sent", format!("PeerDown carries {:?}; daemon sent {}", parsed.as_ref().map(notif_str), notif_str(&n)), &[]));
+                                    fail = Some(finding(
+                                        "peer-down",
+                                        "notification-differs/local",
+                                        "NOTIFICATION in the PeerDown is not the one the daemon sent",
+                                        format!(
+                                            "PeerDown carries {:?}; daemon sent {}",
+                                            parsed.as_ref().map(notif_str),
+                                            notif_str(&n)
+                                        ),
+                                        &[],
+                                    ));
                                 }
                             }
                         }
                         (CloseKind::Drop, _, _) => {
                             if *reason == 1 || *reason == 3 {
-                                fail = Some(finding("peer-down", "reason/no-notification", "the session ended without any NOTIFICATION but the PeerDown carries one", format!("reason {} data {}", reason, hex(data)), &[]));
+                                fail = Some(finding(
+                                    "peer-down",
+                                    "reason/no-notification",
+                                    "the session ended without any NOTIFICATION but the PeerDown carries one",
+                                    format!("reason {} data {}", reason, hex(data)),
+                                    &[],
+                                ));
                             }
                         }
                         _ => rep.count("unjudged:e2e-peer-down-close-not-observed"),
@@ -2032,7 +3636,18 @@ fn judge_station_c19(rep: &mut Report, ps: &mut Parsers, out: &Outcome, sti: usi
                     rep.count("unjudged:e2e-peer-down-of-session-still-open");
                 }
                 match fail {
-                    Some(f) => report(rep, f, ctx(vec![("peer", Json::s(cfg.addr.to_string())), ("close", Json::s(format!("{:?}", s.close.as_ref().map(|c| c.kind))))]), hseed),
+                    Some(f) => report(
+                        rep,
+                        f,
+                        ctx(vec![
+                            ("peer", Json::s(cfg.addr.to_string())),
+                            (
+                                "close",
+                                Json::s(format!("{:?}", s.close.as_ref().map(|c| c.kind))),
+                            ),
+                        ]),
+                        hseed,
+                    ),
                     None => {
                         rep.count(&format!("e2e:peer-down/reason-{}", reason));
                         if info.from_global {
@@ -2045,20 +3660,80 @@ fn judge_station_c19(rep: &mut Report, ps: &mut Parsers, out: &Outcome, sti: usi
                 }
             }
             StMsg::Route { hdr, pdu } if hdr.ptype == 3 => {
-                let e = HdrExp { ptype: 3, flags: 0, addr: IpAddr::V4(Ipv4Addr::UNSPECIFIED), asn: out.local_asn, id: out.router_id.octets(), ts: None };
+                let e = HdrExp {
+                    ptype: 3,
+                    flags: 0,
+                    addr: IpAddr::V4(Ipv4Addr::UNSPECIFIED),
+                    asn: out.local_asn,
+                    id: out.router_id.octets(),
+                    ts: None,
+                };
                 if let Err((c, d)) = check_hdr(hdr, &e) {
-                    report(rep, finding("route-monitoring", &format!("loc-rib-{}", c), "per-peer header of a Loc-RIB RouteMonitoring (RFC 9069 4.1)", d, pdu), ctx(vec![]), hseed);
+                    report(
+                        rep,
+                        finding(
+                            "route-monitoring",
+                            &format!("loc-rib-{}", c),
+                            "per-peer header of a Loc-RIB RouteMonitoring (RFC 9069 4.1)",
+                            d,
+                            pdu,
+                        ),
+                        ctx(vec![]),
+                        hseed,
+                    );
                     continue;
                 }
                 match guard(|| loc_codec.parse_message(pdu)) {
                     Ok(Ok(ParsedMessage::Update(u))) => {
-                        fold_update(u, &mut locrib, None, mi, &mut BTreeMap::new(), &mut BTreeMap::new(), IpAddr::V4(Ipv4Addr::UNSPECIFIED), 0);
+                        fold_update(
+                            u,
+                            &mut locrib,
+                            None,
+                            mi,
+                            &mut BTreeMap::new(),
+                            &mut BTreeMap::new(),
+                            IpAddr::V4(Ipv4Addr::UNSPECIFIED),
+                            0,
+                        );
                         rep.count("e2e:rm/loc-rib");
                         rep.nontrivial(fnv64(pdu));
                     }
-                    Ok(Ok(_)) => report(rep, finding("route-monitoring", "pdu-type/loc-rib", "embedded PDU is not an UPDATE", String::new(), pdu), ctx(vec![]), hseed),
-                    Ok(Err(n)) => report(rep, finding("route-monitoring", "pdu-unparsable/loc-rib", "embedded UPDATE of a Loc-RIB RouteMonitoring is not readable by the repository's parser", format!("{:?}", n), pdu), ctx(vec![]), hseed),
-                    Err(p) => report(rep, finding("route-monitoring", &format!("panic/{}:{}", p.location, panic_class(&p.message)), "repository parser panicked on an embedded UPDATE", p.message, pdu), ctx(vec![]), hseed),
+                    Ok(Ok(_)) => report(
+                        rep,
+                        finding(
+                            "route-monitoring",
+                            "pdu-type/loc-rib",
+                            "embedded PDU is not an UPDATE",
+                            String::new(),
+                            pdu,
+                        ),
+                        ctx(vec![]),
+                        hseed,
+                    ),
+                    Ok(Err(n)) => report(
+                        rep,
+                        finding(
+                            "route-monitoring",
+                            "pdu-unparsable/loc-rib",
+                            "embedded UPDATE of a Loc-RIB RouteMonitoring is not readable by the repository's parser",
+                            format!("{:?}", n),
+                            pdu,
+                        ),
+                        ctx(vec![]),
+                        hseed,
+                    ),
+                    Err(p) => report(
+                        rep,
+                        finding(
+                            "route-monitoring",
+                            &format!("panic/{}:{}", p.location, panic_class(&p.message)),
+                            "repository parser panicked on an embedded UPDATE",
+                            p.message,
+                            pdu,
+                        ),
+                        ctx(vec![]),
+                        hseed,
+                    ),
                 }
             }
             StMsg::Route { hdr, pdu } => {
@@ -2067,31 +3742,148 @@ fn judge_station_c19(rep: &mut Report, ps: &mut Parsers, out: &Outcome, sti: usi
                 let Some(info) = up.get_mut(&addr) else {
                     rep.count("unjudged:e2e-route-monitoring-without-peer-up");
                     if rep.params.flag("trace") {
-                        eprintln!("[peer-msgs] {:?}", st.msgs.iter().enumerate().filter_map(|(i, (_, m))| match m { StMsg::PeerUp { hdr, rport, .. } => Some(format!("#{} up {} t{} rport {}", i, hdr.addr(), hdr.ptype, rport)), StMsg::PeerDown { hdr, reason, .. } => Some(format!("#{} down {} r{}", i, hdr.addr(), reason)), _ => None }).collect::<Vec<_>>());
+                        eprintln!(
+                            "[peer-msgs] {:?}",
+                            st.msgs
+                                .iter()
+                                .enumerate()
+                                .filter_map(|(i, (_, m))| match m {
+                                    StMsg::PeerUp { hdr, rport, .. } => Some(format!(
+                                        "#{} up {} t{} rport {}",
+                                        i,
+                                        hdr.addr(),
+                                        hdr.ptype,
+                                        rport
+                                    )),
+                                    StMsg::PeerDown { hdr, reason, .. } =>
+                                        Some(format!("#{} down {} r{}", i, hdr.addr(), reason)),
+                                    _ => None,
+                                })
+                                .collect::<Vec<_>>()
+                        );
                         let mut hist: BTreeMap<String, (usize, usize, usize)> = BTreeMap::new();
                         for (i, (_, m)) in st.msgs.iter().enumerate() {
                             if let StMsg::Route { hdr, .. } = m {
-                                let e = hist.entry(format!("{} t{} f{:02x}", hdr.addr(), hdr.ptype, hdr.flags)).or_insert((i, i, 0));
+                                let e = hist
+                                    .entry(format!(
+                                        "{} t{} f{:02x}",
+                                        hdr.addr(),
+                                        hdr.ptype,
+                                        hdr.flags
+                                    ))
+                                    .or_insert((i, i, 0));
                                 e.1 = i;
                                 e.2 += 1;
                             }
                         }
                         eprintln!("[rm-hist first,last,count] {:?}", hist);
-                        eprintln!("[first msgs of this station] {:?}", st.msgs.iter().take(6).map(|(o, m)| match m { StMsg::Initiation => format!("@{} init", o), StMsg::PeerUp { hdr, .. } => format!("@{} up {}", o, hdr.addr()), StMsg::PeerDown { hdr, .. } => format!("@{} down {}", o, hdr.addr()), StMsg::Route { hdr, pdu } => format!("@{} rm {} f{:02x} len{}", o, hdr.addr(), hdr.flags, pdu.len()), StMsg::Other(t) => format!("@{} other {}", o, t) }).collect::<Vec<_>>());
+                        eprintln!(
+                            "[first msgs of this station] {:?}",
+                            st.msgs
+                                .iter()
+                                .take(6)
+                                .map(|(o, m)| match m {
+                                    StMsg::Initiation => format!("@{} init", o),
+                                    StMsg::PeerUp { hdr, .. } =>
+                                        format!("@{} up {}", o, hdr.addr()),
+                                    StMsg::PeerDown { hdr, .. } =>
+                                        format!("@{} down {}", o, hdr.addr()),
+                                    StMsg::Route { hdr, pdu } => format!(
+                                        "@{} rm {} f{:02x} len{}",
+                                        o,
+                                        hdr.addr(),
+                                        hdr.flags,
+                                        pdu.len()
+                                    ),
+                                    StMsg::Other(t) => format!("@{} other {}", o, t),
+                                })
+                                .collect::<Vec<_>>()
+                        );
                         for (xi, x) in out.stations.iter().enumerate() {
-                            eprintln!("[station {} policy {} connect {}] {:?}", xi, policy_name(x.policy), x.connect_step, x.msgs.iter().enumerate().filter_map(|(i, (_, m))| match m { StMsg::PeerUp { hdr, rport, .. } => Some(format!("#{} up {} t{} rport {}", i, hdr.addr(), hdr.ptype, rport)), StMsg::PeerDown { hdr, reason, .. } => Some(format!("#{} down {} r{}", i, hdr.addr(), reason)), _ => None }).collect::<Vec<_>>());
+                            eprintln!(
+                                "[station {} policy {} connect {}] {:?}",
+                                xi,
+                                policy_name(x.policy),
+                                x.connect_step,
+                                x.msgs
+                                    .iter()
+                                    .enumerate()
+                                    .filter_map(|(i, (_, m))| match m {
+                                        StMsg::PeerUp { hdr, rport, .. } => Some(format!(
+                                            "#{} up {} t{} rport {}",
+                                            i,
+                                            hdr.addr(),
+                                            hdr.ptype,
+                                            rport
+                                        )),
+                                        StMsg::PeerDown { hdr, reason, .. } =>
+                                            Some(format!("#{} down {} r{}", i, hdr.addr(), reason)),
+                                        _ => None,
+                                    })
+                                    .collect::<Vec<_>>()
+                            );
                         }
                         for s in &out.sessions {
-                            eprintln!("[session] spk {} port {} up_step {} down {:?} model {} close {:?}", s.spk, s.my_port, s.up_step, s.down_step, s.model.len(), s.close.as_ref().map(|c| c.kind));
+                            eprintln!(
+                                "[session] spk {} port {} up_step {} down {:?} model {} close {:?}",
+                                s.spk,
+                                s.my_port,
+                                s.up_step,
+                                s.down_step,
+                                s.model.len(),
+                                s.close.as_ref().map(|c| c.kind)
+                            );
                         }
-                        eprintln!("[rm-without-peer-up] station #{} policy={} connect_step={} msg#{} peer={} flags={:02x} pdu={} prev={:?} steps={:?}", sti, pol, st.connect_step, mi, addr, hdr.flags, hex(&pdu[..pdu.len().min(60)]), st.msgs[mi.saturating_sub(3)..mi].iter().map(|(_, m)| match m { StMsg::PeerUp { hdr, .. } => format!("up {}", hdr.addr()), StMsg::PeerDown { hdr, .. } => format!("down {}", hdr.addr()), StMsg::Route { hdr, .. } => format!("rm {} {:02x}", hdr.addr(), hdr.flags), _ => "other".into() }).collect::<Vec<_>>(), out.steps);
+                        eprintln!(
+                            "[rm-without-peer-up] station #{} policy={} connect_step={} msg#{} peer={} flags={:02x} pdu={} prev={:?} steps={:?}",
+                            sti,
+                            pol,
+                            st.connect_step,
+                            mi,
+                            addr,
+                            hdr.flags,
+                            hex(&pdu[..pdu.len().min(60)]),
+                            st.msgs[mi.saturating_sub(3)..mi]
+                                .iter()
+                                .map(|(_, m)| match m {
+                                    StMsg::PeerUp { hdr, .. } => format!("up {}", hdr.addr()),
+                                    StMsg::PeerDown { hdr, .. } => format!("down {}", hdr.addr()),
+                                    StMsg::Route { hdr, .. } =>
+                                        format!("rm {} {:02x}", hdr.addr(), hdr.flags),
+                                    _ => "other".into(),
+                                })
+                                .collect::<Vec<_>>(),
+                            out.steps
+                        );
                     }
                     continue;
                 };
                 if let Some(si) = info.sess {
                     let cfg = &out.cfgs[out.sessions[si].spk];
-                    if hdr.asn != cfg.asn || hdr.id != cfg.router_id.octets() || hdr.flags & 0x2f != 0 || hdr.rd != 0 {
-                        report(rep, finding("route-monitoring", "peer-header", "per-peer header of a RouteMonitoring does not describe the peer (AS / BGP ID / flags)", format!("AS{} id {} flags {:02x}; peer is AS{} id {}", hdr.asn, hex(&hdr.id), hdr.flags, cfg.asn, cfg.router_id), pdu), ctx(vec![("peer", Json::s(addr.to_string()))]), hseed);
+                    if hdr.asn != cfg.asn
+                        || hdr.id != cfg.router_id.octets()
+                        || hdr.flags & 0x2f != 0
+                        || hdr.rd != 0
+                    {
+                        report(
+                            rep,
+                            finding(
+                                "route-monitoring",
+                                "peer-header",
+                                "per-peer header of a RouteMonitoring does not describe the peer (AS / BGP ID / flags)",
+                                format!(
+                                    "AS{} id {} flags {:02x}; peer is AS{} id {}",
+                                    hdr.asn,
+                                    hex(&hdr.id),
+                                    hdr.flags,
+                                    cfg.asn,
+                                    cfg.router_id
+                                ),
+                                pdu,
+                            ),
+                            ctx(vec![("peer", Json::s(addr.to_string()))]),
+                            hseed,
+                        );
                         continue;
                     }
                 }
@@ -2101,27 +3893,85 @@ fn judge_station_c19(rep: &mut Report, ps: &mut Parsers, out: &Outcome, sti: usi
                     0x10 => "out-pre",
                     _ => "out-post",
                 };
-                let codec = if view & 0x10 != 0 { &mut info.cout } else { &mut info.cin };
+                let codec = if view & 0x10 != 0 {
+                    &mut info.cout
+                } else {
+                    &mut info.cin
+                };
                 match guard(|| codec.parse_message(pdu)) {
                     Ok(Ok(ParsedMessage::Update(u))) => {
                         if let ParsedUpdate::Routes { error_attrs, .. } = &u {
                             if !error_attrs.is_empty() {
-                                report(rep, finding("route-monitoring", &format!("pdu-attr-error/{}", vname), "the repository's parser flags attribute errors in an embedded UPDATE (with the add-path setting the PeerUp states)", format!("codes {:?}", error_attrs.iter().map(|e| e.attr_code).collect::<Vec<_>>()), pdu), ctx(vec![("peer", Json::s(addr.to_string()))]), hseed);
+                                report(
+                                    rep,
+                                    finding(
+                                        "route-monitoring",
+                                        &format!("pdu-attr-error/{}", vname),
+                                        "the repository's parser flags attribute errors in an embedded UPDATE (with the add-path setting the PeerUp states)",
+                                        format!(
+                                            "codes {:?}",
+                                            error_attrs
+                                                .iter()
+                                                .map(|e| e.attr_code)
+                                                .collect::<Vec<_>>()
+                                        ),
+                                        pdu,
+                                    ),
+                                    ctx(vec![("peer", Json::s(addr.to_string()))]),
+                                    hseed,
+                                );
                                 continue;
                             }
                         }
                         let m = folds.entry((addr, view)).or_default();
                         fold_update(u, m, Some(()), mi, &mut eor_at, &mut first_at, addr, view);
                         rep.count(&format!("e2e:rm/{}", vname));
-                        rep.count(if addr.is_ipv6() { "e2e:rm/peer-v6" } else { "e2e:rm/peer-v4" });
+                        rep.count(if addr.is_ipv6() {
+                            "e2e:rm/peer-v6"
+                        } else {
+                            "e2e:rm/peer-v4"
+                        });
                         if pdu.len() > 4096 {
                             rep.count("e2e:rm/pdu-exceeds-4096");
                         }
                         rep.nontrivial(fnv64(pdu) ^ view as u64);
                     }
-                    Ok(Ok(_)) => report(rep, finding("route-monitoring", &format!("pdu-type/{}", vname), "embedded PDU is not an UPDATE", String::new(), pdu), ctx(vec![]), hseed),
-                    Ok(Err(n)) => report(rep, finding("route-monitoring", &format!("pdu-unparsable/{}", vname), "embedded UPDATE is not readable by the repository's parser with the add-path setting the PeerUp's OPENs state", format!("{:?}", n), pdu), ctx(vec![("peer", Json::s(addr.to_string()))]), hseed),
-                    Err(p) => report(rep, finding("route-monitoring", &format!("panic/{}:{}", p.location, panic_class(&p.message)), "repository parser panicked on an embedded UPDATE", p.message, pdu), ctx(vec![]), hseed),
+                    Ok(Ok(_)) => report(
+                        rep,
+                        finding(
+                            "route-monitoring",
+                            &format!("pdu-type/{}", vname),
+                            "embedded PDU is not an UPDATE",
+                            String::new(),
+                            pdu,
+                        ),
+                        ctx(vec![]),
+                        hseed,
+                    ),
+                    Ok(Err(n)) => report(
+                        rep,
+                        finding(
+                            "route-monitoring",
+                            &format!("pdu-unparsable/{}", vname),
+                            "embedded UPDATE is not readable by the repository's parser with the add-path setting the PeerUp's OPENs state",
+                            format!("{:?}", n),
+                            pdu,
+                        ),
+                        ctx(vec![("peer", Json::s(addr.to_string()))]),
+                        hseed,
+                    ),
+                    Err(p) => report(
+                        rep,
+                        finding(
+                            "route-monitoring",
+                            &format!("panic/{}:{}", p.location, panic_class(&p.message)),
+                            "repository parser panicked on an embedded UPDATE",
+                            p.message,
+                            pdu,
+                        ),
+                        ctx(vec![]),
+                        hseed,
+                    ),
                 }
             }
         }
@@ -2130,16 +3980,23 @@ fn judge_station_c19(rep: &mut Report, ps: &mut Parsers, out: &Outcome, sti: usi
             let all = out.up_at_end.iter().all(|&si| {
                 let s = &out.sessions[si];
                 let addr = out.cfgs[s.spk].addr;
-                let pid = if s.ap_in.contains(&fam_id(Family::IPV4)) { 7 } else { 0 };
+                let pid = if s.ap_in.contains(&fam_id(Family::IPV4)) {
+                    7
+                } else {
+                    0
+                };
                 let k = marker_key(s.spk, pid);
-                (!want_pre || folds.get(&(addr, 0)).is_some_and(|m| m.contains_key(&k))) && (!want_post || folds.get(&(addr, 0x40)).is_some_and(|m| m.contains_key(&k))) && (!want_loc || locrib.contains_key(&(k.0, k.1.clone(), 0)))
+                (!want_pre || folds.get(&(addr, 0)).is_some_and(|m| m.contains_key(&k)))
+                    && (!want_post || folds.get(&(addr, 0x40)).is_some_and(|m| m.contains_key(&k)))
+                    && (!want_loc || locrib.contains_key(&(k.0, k.1.clone(), 0)))
             });
             if all {
                 final_done = true;
                 for &si in &out.up_at_end {
                     let s = &out.sessions[si];
                     let addr = out.cfgs[s.spk].addr;
-                    for (want, view, vname) in [(want_pre, 0u8, "pre"), (want_post, 0x40u8, "post")] {
+                    for (want, view, vname) in [(want_pre, 0u8, "pre"), (want_post, 0x40u8, "post")]
+                    {
                         if !want {
                             continue;
                         }
@@ -2154,7 +4011,21 @@ fn judge_station_c19(rep: &mut Report, ps: &mut Parsers, out: &Outcome, sti: usi
                             }
                         } else {
                             let (c, d) = map_diff(got, &s.model);
-                            report(rep, finding("route-monitoring", &format!("rib-view-{}/{}", c, vname), "the Adj-RIB-In a station reconstructs from the RouteMonitoring messages of a peer is not what the peer announced", d, &[]), ctx(vec![("peer", Json::s(addr.to_string())), ("add_path_families", Json::s(format!("{:?}", s.ap_in)))]), hseed);
+                            report(
+                                rep,
+                                finding(
+                                    "route-monitoring",
+                                    &format!("rib-view-{}/{}", c, vname),
+                                    "the Adj-RIB-In a station reconstructs from the RouteMonitoring messages of a peer is not what the peer announced",
+                                    d,
+                                    &[],
+                                ),
+                                ctx(vec![
+                                    ("peer", Json::s(addr.to_string())),
+                                    ("add_path_families", Json::s(format!("{:?}", s.ap_in))),
+                                ]),
+                                hseed,
+                            );
                         }
                     }
                 }
@@ -2169,18 +4040,57 @@ fn judge_station_c19(rep: &mut Report, ps: &mut Parsers, out: &Outcome, sti: usi
                     let mut bad: Option<(String, String)> = None;
                     for (k, v) in &locrib {
                         match cands.get(&(k.0, k.1.clone())) {
-                            None => bad = Some(("loc-rib-route-not-in-rib".into(), format!("{:?} is in the station's Loc-RIB but no peer announces it", k))),
-                            Some(c) if !c.contains(&v) => bad = Some(("loc-rib-content-differs".into(), format!("{:?}: station has [{}] nh {}; announced candidates: {:?}", k, short(&v.0, 200), v.1, c.iter().take(3).map(|x| format!("[{}] nh {}", short(&x.0, 200), x.1)).collect::<Vec<_>>()))),
+                            None => {
+                                bad = Some((
+                                    "loc-rib-route-not-in-rib".into(),
+                                    format!(
+                                        "{:?} is in the station's Loc-RIB but no peer announces it",
+                                        k
+                                    ),
+                                ))
+                            }
+                            Some(c) if !c.contains(&v) => {
+                                bad = Some((
+                                    "loc-rib-content-differs".into(),
+                                    format!(
+                                        "{:?}: station has [{}] nh {}; announced candidates: {:?}",
+                                        k,
+                                        short(&v.0, 200),
+                                        v.1,
+                                        c.iter()
+                                            .take(3)
+                                            .map(|x| format!("[{}] nh {}", short(&x.0, 200), x.1))
+                                            .collect::<Vec<_>>()
+                                    ),
+                                ))
+                            }
                             _ => {}
                         }
                     }
                     for k in cands.keys() {
                         if !locrib.contains_key(&(k.0, k.1.clone(), 0)) {
-                            bad = Some(("loc-rib-route-missing".into(), format!("{:?} is announced by a peer but not in the station's Loc-RIB", k)));
+                            bad = Some((
+                                "loc-rib-route-missing".into(),
+                                format!(
+                                    "{:?} is announced by a peer but not in the station's Loc-RIB",
+                                    k
+                                ),
+                            ));
                         }
                     }
                     match bad {
-                        Some((c, d)) => report(rep, finding("route-monitoring", &c, "the Loc-RIB a station reconstructs is not made of the announced routes", d, &[]), ctx(vec![]), hseed),
+                        Some((c, d)) => report(
+                            rep,
+                            finding(
+                                "route-monitoring",
+                                &c,
+                                "the Loc-RIB a station reconstructs is not made of the announced routes",
+                                d,
+                                &[],
+                            ),
+                            ctx(vec![]),
+                            hseed,
+                        ),
                         None => {
                             rep.count("e2e:rib-view-compared/loc-rib");
                             rep.count_n("e2e:routes-compared", locrib.len() as u64);
@@ -2207,19 +4117,49 @@ fn judge_station_c19(rep: &mut Report, ps: &mut Parsers, out: &Outcome, sti: usi
                 let mut bad: Option<(String, String)> = None;
                 for f in fams {
                     match eor_at.get(&(addr, view, f)) {
-                        None => bad = Some(("snapshot-eor-missing".into(), format!("peer {} had {} routes of family {:08x} when the station connected; no End-of-RIB for it in the {} view", addr, model.keys().filter(|k| k.0 == f).count(), f, vname))),
+                        None => {
+                            bad = Some((
+                                "snapshot-eor-missing".into(),
+                                format!(
+                                    "peer {} had {} routes of family {:08x} when the station connected; no End-of-RIB for it in the {} view",
+                                    addr,
+                                    model.keys().filter(|k| k.0 == f).count(),
+                                    f,
+                                    vname
+                                ),
+                            ))
+                        }
                         Some(&e) => {
                             for k in model.keys().filter(|k| k.0 == f) {
                                 match first_at.get(&(addr, view, k.clone())) {
                                     Some(&i) if i < e => {}
-                                    _ => bad = Some(("snapshot-route-after-eor".into(), format!("peer {} route {:?} held at connect time does not precede the End-of-RIB of its family in the {} view", addr, k, vname))),
+                                    _ => {
+                                        bad = Some((
+                                            "snapshot-route-after-eor".into(),
+                                            format!(
+                                                "peer {} route {:?} held at connect time does not precede the End-of-RIB of its family in the {} view",
+                                                addr, k, vname
+                                            ),
+                                        ))
+                                    }
                                 }
                             }
                         }
                     }
                 }
                 match bad {
-                    Some((c, d)) => report(rep, finding("route-monitoring", &format!("{}/{}", c, vname), "the initial dump a station gets for an established peer must be the peer's routes followed by an End-of-RIB per family", d, &[]), ctx(vec![("peer", Json::s(addr.to_string()))]), hseed),
+                    Some((c, d)) => report(
+                        rep,
+                        finding(
+                            "route-monitoring",
+                            &format!("{}/{}", c, vname),
+                            "the initial dump a station gets for an established peer must be the peer's routes followed by an End-of-RIB per family",
+                            d,
+                            &[],
+                        ),
+                        ctx(vec![("peer", Json::s(addr.to_string()))]),
+                        hseed,
+                    ),
                     None => rep.count(&format!("e2e:snapshot-with-eor/{}", vname)),
                 }
             }
@@ -2229,14 +4169,30 @@ fn judge_station_c19(rep: &mut Report, ps: &mut Parsers, out: &Outcome, sti: usi
 
 /// fold one parsed UPDATE into a RIB view; records End-of-RIB positions and first appearances
 #[allow(clippy::too_many_arguments)]
-fn fold_update(u: ParsedUpdate, m: &mut BTreeMap<RouteKey, RouteVal>, track: Option<()>, mi: usize, eor_at: &mut BTreeMap<(IpAddr, u8, u32), usize>, first_at: &mut BTreeMap<(IpAddr, u8, RouteKey), usize>, addr: IpAddr, view: u8) {
+fn fold_update(
+    u: ParsedUpdate,
+    m: &mut BTreeMap<RouteKey, RouteVal>,
+    track: Option<()>,
+    mi: usize,
+    eor_at: &mut BTreeMap<(IpAddr, u8, u32), usize>,
+    first_at: &mut BTreeMap<(IpAddr, u8, RouteKey), usize>,
+    addr: IpAddr,
+    view: u8,
+) {
     match u {
         ParsedUpdate::EndOfRib(f) => {
             if track.is_some() {
                 eor_at.entry((addr, view, fam_id(f))).or_insert(mi);
             }
         }
-        ParsedUpdate::Routes { reach, mp_reach, unreach, mp_unreach, attrs, .. } => {
+        ParsedUpdate::Routes {
+            reach,
+            mp_reach,
+            unreach,
+            mp_unreach,
+            attrs,
+            ..
+        } => {
             let canon = attrs_canon(&attrs);
             for r in reach.into_iter().chain(mp_reach) {
                 for e in r.entries {
@@ -2257,7 +4213,11 @@ fn fold_update(u: ParsedUpdate, m: &mut BTreeMap<RouteKey, RouteVal>, track: Opt
 }
 
 fn run_e2e(rng: &mut Rng, ps: &mut Parsers, prm: &E2eParams, k: u64) -> Option<Outcome> {
-    let rt = tokio::runtime::Builder::new_multi_thread().worker_threads(3).enable_all().build().ok()?;
+    let rt = tokio::runtime::Builder::new_multi_thread()
+        .worker_threads(3)
+        .enable_all()
+        .build()
+        .ok()?;
     let out = rt.block_on(e2e_script(rng, ps, prm, k));
     rt.shutdown_timeout(Duration::from_millis(200));
     Some(out)
@@ -2269,12 +4229,20 @@ fn e2e_counts(rep: &mut Report, out: &Outcome) {
     rep.count_n("e2e:stations", out.stations.len() as u64);
     for st in &out.stations {
         rep.count(&format!("e2e:station-policy/{}", policy_name(st.policy)));
-        rep.count(if st.quiescent { "e2e:station-connected-at-quiescence" } else { "e2e:station-connected-racing" });
+        rep.count(if st.quiescent {
+            "e2e:station-connected-at-quiescence"
+        } else {
+            "e2e:station-connected-racing"
+        });
         rep.count_n("e2e:bmp-messages-read", st.msgs.len() as u64);
     }
     for s in &out.sessions {
         let c = &out.cfgs[s.spk];
-        rep.count(if c.addr.is_ipv6() { "e2e:session-v6-peer" } else { "e2e:session-v4-peer" });
+        rep.count(if c.addr.is_ipv6() {
+            "e2e:session-v6-peer"
+        } else {
+            "e2e:session-v4-peer"
+        });
         if !s.ap_in.is_empty() {
             rep.count("e2e:session-with-add-path");
         }
@@ -2301,14 +4269,33 @@ fn judge_station_c18(rep: &mut Report, out: &Outcome, sti: usize, hseed: u64) {
     }
     let ctx = || {
         Json::obj(vec![
-            ("station", Json::s(format!("#{} policy={} connected at step {} quiescent={}", sti, policy_name(st.policy), st.connect_step, st.quiescent))),
-            ("speakers", Json::strs(out.cfgs.iter().map(|c| format!("{} AS{}", c.addr, c.asn)))),
+            (
+                "station",
+                Json::s(format!(
+                    "#{} policy={} connected at step {} quiescent={}",
+                    sti,
+                    policy_name(st.policy),
+                    st.connect_step,
+                    st.quiescent
+                )),
+            ),
+            (
+                "speakers",
+                Json::strs(out.cfgs.iter().map(|c| format!("{} AS{}", c.addr, c.asn))),
+            ),
             ("script", Json::strs(out.steps.iter().cloned())),
             (
                 "peer_messages",
                 Json::strs(st.msgs.iter().filter_map(|(_, m)| match m {
-                    StMsg::PeerUp { hdr, rport, .. } => Some(format!("PeerUp {} type {} remote-port {}", hdr.addr(), hdr.ptype, rport)),
-                    StMsg::PeerDown { hdr, reason, .. } => Some(format!("PeerDown {} reason {}", hdr.addr(), reason)),
+                    StMsg::PeerUp { hdr, rport, .. } => Some(format!(
+                        "PeerUp {} type {} remote-port {}",
+                        hdr.addr(),
+                        hdr.ptype,
+                        rport
+                    )),
+                    StMsg::PeerDown { hdr, reason, .. } => {
+                        Some(format!("PeerDown {} reason {}", hdr.addr(), reason))
+                    }
                     _ => None,
                 })),
             ),
@@ -2323,11 +4310,19 @@ fn judge_station_c18(rep: &mut Report, out: &Outcome, sti: usize, hseed: u64) {
             StMsg::PeerUp { hdr, rport, .. } if hdr.ptype == 0 => {
                 rep.eval();
                 let addr = hdr.addr();
-                let from_global = out.sessions.iter().any(|s| out.cfgs[s.spk].addr == addr && s.my_port == *rport && s.up_step < st.connect_step);
+                let from_global = out.sessions.iter().any(|s| {
+                    out.cfgs[s.spk].addr == addr
+                        && s.my_port == *rport
+                        && s.up_step < st.connect_step
+                });
                 if open.insert(addr, from_global).is_some() {
                     rep.count("unjudged:peer-up-repeated-without-peer-down");
                 }
-                rep.count(if from_global { "c18:peer-up-reconstructed-from-global" } else { "c18:peer-up-live" });
+                rep.count(if from_global {
+                    "c18:peer-up-reconstructed-from-global"
+                } else {
+                    "c18:peer-up-live"
+                });
             }
             StMsg::PeerDown { hdr, reason, .. } => {
                 rep.eval();
@@ -2372,7 +4367,13 @@ fn judge_station_c18(rep: &mut Report, out: &Outcome, sti: usize, hseed: u64) {
     }
     if out.closed_at_end {
         for (a, _) in open.iter() {
-            if out.sessions.iter().any(|s| out.cfgs[s.spk].addr == *a && s.close.is_some() && !out.up_at_end.is_empty()) && !out.sessions.iter().any(|s| out.cfgs[s.spk].addr == *a && s.close.is_none()) {
+            if out.sessions.iter().any(|s| {
+                out.cfgs[s.spk].addr == *a && s.close.is_some() && !out.up_at_end.is_empty()
+            }) && !out
+                .sessions
+                .iter()
+                .any(|s| out.cfgs[s.spk].addr == *a && s.close.is_none())
+            {
                 rep.count("unjudged:peer-down-not-seen-for-closed-session");
             }
         }
@@ -2401,12 +4402,23 @@ fn judge_station_rib_c18(rep: &mut Report, out: &Outcome, sti: usize, hseed: u64
     // parsers per peer: path ids are present where the session negotiated them (same for every session of a speaker)
     let mut codecs: BTreeMap<IpAddr, PeerCodec> = BTreeMap::new();
     for (i, cfg) in out.cfgs.iter().enumerate() {
-        let ap: BTreeSet<u32> = out.sessions.iter().find(|s| s.spk == i).map(|s| s.ap_in.clone()).unwrap_or_default();
+        let ap: BTreeSet<u32> = out
+            .sessions
+            .iter()
+            .find(|s| s.spk == i)
+            .map(|s| s.ap_in.clone())
+            .unwrap_or_default();
         let mut c = PeerCodec::new();
         c.extended_length = true;
         for (f, _) in FAMILIES {
             let on = ap.contains(&fam_id(*f));
-            c.set_family(*f, FamilyState { addpath_rx: on, addpath_tx: on });
+            c.set_family(
+                *f,
+                FamilyState {
+                    addpath_rx: on,
+                    addpath_tx: on,
+                },
+            );
         }
         codecs.insert(cfg.addr, c);
     }
@@ -2426,7 +4438,10 @@ fn judge_station_rib_c18(rep: &mut Report, out: &Outcome, sti: usize, hseed: u64
         match m {
             StMsg::PeerUp { hdr, rport, .. } if hdr.ptype == 0 => {
                 open.insert(hdr.addr());
-                log(&mut order, format!("PeerUp {} (remote port {})", hdr.addr(), rport));
+                log(
+                    &mut order,
+                    format!("PeerUp {} (remote port {})", hdr.addr(), rport),
+                );
             }
             StMsg::PeerDown { hdr, reason, .. } => {
                 let a = hdr.addr();
@@ -2438,7 +4453,9 @@ fn judge_station_rib_c18(rep: &mut Report, out: &Outcome, sti: usize, hseed: u64
             StMsg::Route { hdr, pdu } if hdr.ptype == 0 && hdr.flags & 0x10 == 0 => {
                 let a = hdr.addr();
                 let view = hdr.flags & 0x40;
-                let Some(codec) = codecs.get_mut(&a) else { continue };
+                let Some(codec) = codecs.get_mut(&a) else {
+                    continue;
+                };
                 let Ok(Ok(ParsedMessage::Update(u))) = guard(|| codec.parse_message(pdu)) else {
                     rep.count("unjudged:station-rib-unparsable-update (C19's to report)");
                     continue;
@@ -2447,7 +4464,14 @@ fn judge_station_rib_c18(rep: &mut Report, out: &Outcome, sti: usize, hseed: u64
                 let has_up = open.contains(&a);
                 match u {
                     ParsedUpdate::EndOfRib(_) => {}
-                    ParsedUpdate::Routes { reach, mp_reach, unreach, mp_unreach, attrs, .. } => {
+                    ParsedUpdate::Routes {
+                        reach,
+                        mp_reach,
+                        unreach,
+                        mp_unreach,
+                        attrs,
+                        ..
+                    } => {
                         let canon = attrs_canon(&attrs);
                         let fold = folds.entry((a, view)).or_default();
                         let mut what = "withdraw";
@@ -2466,15 +4490,37 @@ fn judge_station_rib_c18(rep: &mut Report, out: &Outcome, sti: usize, hseed: u64
                                 fold.remove(&(fam_id(w.family), e.nlri.to_string(), e.path_id));
                             }
                         }
-                        log(&mut order, format!("RouteMonitoring {} {} {}{}", a, if view == 0 { "pre" } else { "post" }, what, if has_up { "" } else { " [no PeerUp open for this peer]" }));
+                        log(
+                            &mut order,
+                            format!(
+                                "RouteMonitoring {} {}{}",
+                                a,
+                                what,
+                                if has_up {
+                                    ""
+                                } else {
+                                    " [no PeerUp open for this peer]"
+                                }
+                            ),
+                        );
                     }
                 }
                 // the synchronisation point: the last marker of every session that is up, in every subscribed view
                 reached = out.up_at_end.iter().all(|&si| {
                     let s = &out.sessions[si];
                     let pa = out.cfgs[s.spk].addr;
-                    let k: RouteKey = (fam_id(Family::IPV4), format!("10.{}.{}.{}/32", 240 + s.spk, (mk >> 8) & 255, mk & 255), if s.ap_in.contains(&fam_id(Family::IPV4)) { 7 } else { 0 });
-                    (!want_pre || folds.get(&(pa, 0)).is_some_and(|m| m.contains_key(&k))) && (!want_post || folds.get(&(pa, 0x40)).is_some_and(|m| m.contains_key(&k)))
+                    let k: RouteKey = (
+                        fam_id(Family::IPV4),
+                        format!("10.{}.{}.{}/32", 240 + s.spk, (mk >> 8) & 255, mk & 255),
+                        if s.ap_in.contains(&fam_id(Family::IPV4)) {
+                            7
+                        } else {
+                            0
+                        },
+                    );
+                    (!want_pre || folds.get(&(pa, 0)).is_some_and(|m| m.contains_key(&k)))
+                        && (!want_post
+                            || folds.get(&(pa, 0x40)).is_some_and(|m| m.contains_key(&k)))
                 });
                 if reached {
                     break;
@@ -2508,18 +4554,36 @@ fn judge_station_rib_c18(rep: &mut Report, out: &Outcome, sti: usize, hseed: u64
             rep.eval();
             let got = folds.get(&(cfg.addr, view)).unwrap_or(&empty);
             if got == expected {
-                rep.count(if departed { "c18:station-rib-departed-peer-empty" } else { "c18:station-rib-established-peer-equal" });
+                rep.count(if departed {
+                    "c18:station-rib-departed-peer-empty"
+                } else {
+                    "c18:station-rib-established-peer-equal"
+                });
                 if departed && rms_of.get(&cfg.addr).copied().unwrap_or(0) > 0 {
                     rep.count("c18:station-rib-departed-peer-had-routes");
-                    rep.nontrivial(fnv64(format!("rib{}{}{}{}", hseed, sti, cfg.addr, view).as_bytes()));
+                    rep.nontrivial(fnv64(
+                        format!("rib{}{}{}{}", hseed, sti, cfg.addr, view).as_bytes(),
+                    ));
                 }
                 continue;
             }
-            let leftover: Vec<&RouteKey> = got.keys().filter(|k| !expected.contains_key(*k)).collect();
-            let missing: Vec<&RouteKey> = expected.iter().filter(|(k, v)| got.get(*k) != Some(*v)).map(|(k, _)| k).collect();
+            let leftover: Vec<&RouteKey> =
+                got.keys().filter(|k| !expected.contains_key(*k)).collect();
+            let missing: Vec<&RouteKey> = expected
+                .iter()
+                .filter(|(k, v)| got.get(*k) != Some(*v))
+                .map(|(k, _)| k)
+                .collect();
             let orph = orphan.get(&(cfg.addr, view));
-            let all_orphan = !leftover.is_empty() && leftover.iter().all(|k| orph.is_some_and(|o| o.contains(*k)));
-            let sig = if missing.is_empty() && all_orphan { "C18/bmp-station/routes-of-departed-peer" } else { "C18/bmp-station/adj-rib-in-differs" };
+            let all_orphan = !leftover.is_empty()
+                && leftover
+                    .iter()
+                    .all(|k| orph.is_some_and(|o| o.contains(*k)));
+            let sig = if missing.is_empty() && all_orphan {
+                "C18/bmp-station/routes-of-departed-peer"
+            } else {
+                "C18/bmp-station/adj-rib-in-differs"
+            };
             let what = if sig.ends_with("departed-peer") {
                 "a BMP station was sent RouteMonitoring of a session that had ended without ever being sent its PeerUp; the PeerDown is then suppressed, so the station keeps routes the RIB no longer holds (last event delivered is not the current state)"
             } else {
@@ -2529,14 +4593,50 @@ fn judge_station_rib_c18(rep: &mut Report, out: &Outcome, sti: usize, hseed: u64
                 sig,
                 what,
                 Json::obj(vec![
-                    ("station", Json::s(format!("#{} policy={} connected at step {} quiescent={}", sti, policy_name(st.policy), st.connect_step, st.quiescent))),
-                    ("peer", Json::s(format!("{} AS{} ({})", cfg.addr, cfg.asn, if departed { "no session at the end" } else { "established at the end" }))),
+                    (
+                        "station",
+                        Json::s(format!(
+                            "#{} policy={} connected at step {} quiescent={}",
+                            sti,
+                            policy_name(st.policy),
+                            st.connect_step,
+                            st.quiescent
+                        )),
+                    ),
+                    (
+                        "peer",
+                        Json::s(format!(
+                            "{} AS{} ({})",
+                            cfg.addr,
+                            cfg.asn,
+                            if departed {
+                                "no session at the end"
+                            } else {
+                                "established at the end"
+                            }
+                        )),
+                    ),
                     ("view", Json::s(vname)),
                     ("rib_holds", Json::Int(expected.len() as i128)),
                     ("station_holds", Json::Int(got.len() as i128)),
-                    ("station_only", Json::strs(leftover.iter().take(5).map(|k| format!("{:?}", k)))),
-                    ("rib_only_or_differing", Json::strs(missing.iter().take(5).map(|k| format!("{:?}", k)))),
-                    ("read_by_station_in_order", Json::strs(order.iter().map(|(e, n)| if *n > 1 { format!("{} x{}", e, n) } else { e.clone() }))),
+                    (
+                        "station_only",
+                        Json::strs(leftover.iter().take(5).map(|k| format!("{:?}", k))),
+                    ),
+                    (
+                        "rib_only_or_differing",
+                        Json::strs(missing.iter().take(5).map(|k| format!("{:?}", k))),
+                    ),
+                    (
+                        "read_by_station_in_order (pre and post views together)",
+                        Json::strs(order.iter().take(80).map(|(e, n)| {
+                            if *n > 1 {
+                                format!("{} x{}", e, n)
+                            } else {
+                                e.clone()
+                            }
+                        })),
+                    ),
                     ("script", Json::strs(out.steps.iter().cloned())),
                     ("history_seed", Json::Int(hseed as i128)),
                 ]),
@@ -2551,10 +4651,17 @@ fn judge_station_rib_c18(rep: &mut Report, out: &Outcome, sti: usize, hseed: u64
 /// starts with a fresh tracking set and an Initiation message as delimiter).
 type DirectCase = (Vec<String>, Vec<String>, Vec<String>);
 
-async fn c18_direct_batch(rng: &mut Rng, ps: &mut Parsers, ncases: usize) -> Result<Vec<DirectCase>, String> {
+async fn c18_direct_batch(
+    rng: &mut Rng,
+    ps: &mut Parsers,
+    ncases: usize,
+) -> Result<Vec<DirectCase>, String> {
     let l = block_listener().await?;
     let port = l.local_addr().map_err(|e| e.to_string())?.port();
-    let (c, a) = tokio::join!(connect_retry(SocketAddr::new(IpAddr::V4(Ipv4Addr::LOCALHOST), port)), l.accept());
+    let (c, a) = tokio::join!(
+        connect_retry(SocketAddr::new(IpAddr::V4(Ipv4Addr::LOCALHOST), port)),
+        l.accept()
+    );
     let stream = c.map_err(|e| format!("connect: {}", e))?;
     // the writing end closes with FIN after the last message (an RST could overtake data still in
     // flight); the reading end closes with RST once it has seen the end of the stream
@@ -2564,19 +4671,39 @@ async fn c18_direct_batch(rng: &mut Rng, ps: &mut Parsers, ncases: usize) -> Res
     // the station reads while the cases are written
     let reader = tokio::spawn(async move {
         let mut bytes = Vec::new();
-        let _ = tokio::time::timeout(Duration::from_secs(30), station.read_to_end(&mut bytes)).await;
+        let _ =
+            tokio::time::timeout(Duration::from_secs(30), station.read_to_end(&mut bytes)).await;
         bytes
     });
     let mut lines = Framed::new(stream, bmp::BmpCodec::new());
-    let open = |asn: u32| bgp::Message::Open(Open { as_number: asn, holdtime: HoldTime::new(90).unwrap(), router_id: asn, capability: vec![Capability::FourOctetAsNumber(asn)] });
+    let open = |asn: u32| {
+        bgp::Message::Open(Open {
+            as_number: asn,
+            holdtime: HoldTime::new(90).unwrap(),
+            router_id: asn,
+            capability: vec![Capability::FourOctetAsNumber(asn)],
+        })
+    };
     let mut cases: Vec<(Vec<String>, Vec<String>)> = Vec::new();
     for _ in 0..ncases {
-        if lines.send(&bmp::Message::Initiation(vec![(0, b"case".to_vec())])).await.is_err() {
+        if lines
+            .send(&bmp::Message::Initiation(vec![(0, b"case".to_vec())]))
+            .await
+            .is_err()
+        {
             return Err("delimiter could not be sent".into());
         }
         let mut sent: FnvHashSet<IpAddr> = FnvHashSet::default();
         let npeers = rng.range(1, 5) as usize;
-        let peers: Vec<IpAddr> = (0..npeers).map(|i| if rng.chance(1, 3) { IpAddr::V6(Ipv6Addr::new(0x2001, 0xdb8, 0, 0, 0, 0, 0, 1 + i as u16)) } else { IpAddr::V4(Ipv4Addr::new(192, 0, 2, 1 + i as u8)) }).collect();
+        let peers: Vec<IpAddr> = (0..npeers)
+            .map(|i| {
+                if rng.chance(1, 3) {
+                    IpAddr::V6(Ipv6Addr::new(0x2001, 0xdb8, 0, 0, 0, 0, 0, 1 + i as u16))
+                } else {
+                    IpAddr::V4(Ipv4Addr::new(192, 0, 2, 1 + i as u8))
+                }
+            })
+            .collect();
         let n = rng.range(3, 40) as usize;
         let mut events = Vec::new();
         let mut model_open: BTreeSet<IpAddr> = BTreeSet::new();
@@ -2587,7 +4714,18 @@ async fn c18_direct_batch(rng: &mut Rng, ps: &mut Parsers, ncases: usize) -> Res
             let hdr = bmp::PerPeerHeader::new(0, asn, Ipv4Addr::from(asn), 0, p, 1);
             if rng.chance(9, 20) {
                 events.push(format!("up {}", p));
-                let m = bmp::Message::PeerUp { header: hdr, local_addr: if p.is_ipv6() { IpAddr::V6(Ipv6Addr::LOCALHOST) } else { IpAddr::V4(Ipv4Addr::LOCALHOST) }, local_port: 179, remote_port: 40000, local_open: open(65000), remote_open: open(asn) };
+                let m = bmp::Message::PeerUp {
+                    header: hdr,
+                    local_addr: if p.is_ipv6() {
+                        IpAddr::V6(Ipv6Addr::LOCALHOST)
+                    } else {
+                        IpAddr::V4(Ipv4Addr::LOCALHOST)
+                    },
+                    local_port: 179,
+                    remote_port: 40000,
+                    local_open: open(65000),
+                    remote_open: open(asn),
+                };
                 if !send_peer_up(&mut sent, &mut lines, p, &m).await {
                     return Err("send_peer_up reported a broken connection".into());
                 }
@@ -2598,9 +4736,14 @@ async fn c18_direct_batch(rng: &mut Rng, ps: &mut Parsers, ncases: usize) -> Res
                 let reason = match rng.below(3) {
                     0 => bmp::PeerDownReason::RemoteUnexpected,
                     1 => bmp::PeerDownReason::LocalFsm(0),
-                    _ => bmp::PeerDownReason::RemoteNotification(bgp::Message::Notification(gen_notification(rng))),
+                    _ => bmp::PeerDownReason::RemoteNotification(bgp::Message::Notification(
+                        gen_notification(rng),
+                    )),
                 };
-                let m = bmp::Message::PeerDown { header: hdr, reason };
+                let m = bmp::Message::PeerDown {
+                    header: hdr,
+                    reason,
+                };
                 if !send_peer_down(&mut sent, &mut lines, p, &m).await {
                     return Err("send_peer_down reported a broken connection".into());
                 }
@@ -2612,7 +4755,11 @@ async fn c18_direct_batch(rng: &mut Rng, ps: &mut Parsers, ncases: usize) -> Res
         }
         cases.push((events, expect));
     }
-    if lines.send(&bmp::Message::Initiation(vec![(0, b"end".to_vec())])).await.is_err() {
+    if lines
+        .send(&bmp::Message::Initiation(vec![(0, b"end".to_vec())]))
+        .await
+        .is_err()
+    {
         return Err("end marker could not be sent".into());
     }
     drop(lines);
@@ -2622,18 +4769,32 @@ async fn c18_direct_batch(rng: &mut Rng, ps: &mut Parsers, ncases: usize) -> Res
     for r in recs {
         match read_bmp_msg(ps, r.typ, r.body) {
             Ok(StMsg::Initiation) => got.push(Vec::new()),
-            Ok(StMsg::PeerUp { hdr, .. }) => got.last_mut().ok_or("no delimiter")?.push(format!("up {}", hdr.addr())),
-            Ok(StMsg::PeerDown { hdr, .. }) => got.last_mut().ok_or("no delimiter")?.push(format!("down {}", hdr.addr())),
+            Ok(StMsg::PeerUp { hdr, .. }) => got
+                .last_mut()
+                .ok_or("no delimiter")?
+                .push(format!("up {}", hdr.addr())),
+            Ok(StMsg::PeerDown { hdr, .. }) => got
+                .last_mut()
+                .ok_or("no delimiter")?
+                .push(format!("down {}", hdr.addr())),
             Ok(_) => got.last_mut().ok_or("no delimiter")?.push("other".into()),
             Err((k, c, d)) => return Err(format!("message not well-formed: {} {} {}", k, c, d)),
         }
     }
     // the end marker proves that nothing was lost at the end of the stream
     if got.len() != cases.len() + 1 || !got.last().is_some_and(|g| g.is_empty()) {
-        return Err(format!("{} delimiters read for {} cases + end marker", got.len(), cases.len()));
+        return Err(format!(
+            "{} delimiters read for {} cases + end marker",
+            got.len(),
+            cases.len()
+        ));
     }
     got.pop();
-    Ok(cases.into_iter().zip(got).map(|((e, x), g)| (e, x, g)).collect())
+    Ok(cases
+        .into_iter()
+        .zip(got)
+        .map(|((e, x), g)| (e, x, g))
+        .collect())
 }
 
 #[test]
@@ -2672,7 +4833,10 @@ fn c18_peer_tracking() {
     }
 
     // ---- send_peer_up / send_peer_down over a real Framed<TcpStream, BmpCodec>
-    match tokio::runtime::Builder::new_current_thread().enable_all().build() {
+    match tokio::runtime::Builder::new_current_thread()
+        .enable_all()
+        .build()
+    {
         Err(_) => rep.inconclusive("cannot build a tokio runtime"),
         Ok(rt) => {
             let total = params.n(1500, 30000) as usize;
@@ -2696,9 +4860,17 @@ fn c18_peer_tracking() {
                         for (events, expect, got) in cases {
                             rep.evals(got.len() as u64);
                             rep.count("c18:direct-cases");
-                            let suppressed = events.iter().filter(|e| e.starts_with("down")).count() - expect.iter().filter(|e| e.starts_with("down")).count();
-                            rep.count_n("c18:direct-peer-down-events-for-peers-without-open-peer-up", suppressed as u64);
-                            rep.count_n("c18:direct-peer-down-forwarded", expect.iter().filter(|e| e.starts_with("down")).count() as u64);
+                            let suppressed =
+                                events.iter().filter(|e| e.starts_with("down")).count()
+                                    - expect.iter().filter(|e| e.starts_with("down")).count();
+                            rep.count_n(
+                                "c18:direct-peer-down-events-for-peers-without-open-peer-up",
+                                suppressed as u64,
+                            );
+                            rep.count_n(
+                                "c18:direct-peer-down-forwarded",
+                                expect.iter().filter(|e| e.starts_with("down")).count() as u64,
+                            );
                             if got == expect {
                                 if suppressed > 0 {
                                     rep.nontrivial(fnv64(events.join(",").as_bytes()));
@@ -2735,13 +4907,21 @@ fn c18_peer_tracking() {
             break;
         }
         let hseed = rng.next_u64();
-        let Some(out) = run_e2e(&mut Rng::new(hseed), &mut ps, &E2eParams { churn: true }, 1000 + k) else {
+        let Some(out) = run_e2e(
+            &mut Rng::new(hseed),
+            &mut ps,
+            &E2eParams { churn: true },
+            1000 + k,
+        ) else {
             rep.inconclusive("cannot build a tokio runtime");
             break;
         };
         if let Some(p) = &out.problem {
             problems += 1;
-            rep.count(&format!("e2e-problem:{}", p.split(':').next().unwrap_or("")));
+            rep.count(&format!(
+                "e2e-problem:{}",
+                p.split(':').next().unwrap_or("")
+            ));
             eprintln!("[C18 e2e {}] {}", hseed, p);
         }
         rep.count("c18:e2e-histories");
@@ -2751,7 +4931,11 @@ fn c18_peer_tracking() {
             judge_station_rib_c18(&mut rep, &out, i, hseed);
         }
         if rep.want_sample() {
-            rep.sample(Json::obj(vec![("kind", Json::s("e2e")), ("history_seed", Json::Int(hseed as i128)), ("script", Json::strs(out.steps.iter().cloned()))]));
+            rep.sample(Json::obj(vec![
+                ("kind", Json::s("e2e")),
+                ("history_seed", Json::Int(hseed as i128)),
+                ("script", Json::strs(out.steps.iter().cloned())),
+            ]));
         }
     }
     if problems * 2 > n.max(1) {
@@ -2768,7 +4952,8 @@ fn run() {
     let mut rng = Rng::new(params.seed ^ 0xC19_B000);
     let part = params.get("part").unwrap_or("all").to_string();
     if params.flag("daemonlog") {
-        let _ = env_logger::Builder::from_env(env_logger::Env::default().default_filter_or("info")).try_init();
+        let _ = env_logger::Builder::from_env(env_logger::Env::default().default_filter_or("info"))
+            .try_init();
     }
     if part == "all" || part == "conv" {
         let n = params.n(60, 3000);
@@ -2788,16 +4973,27 @@ fn run() {
                 break;
             }
             let hseed = rng.next_u64();
-            if params.get("only").is_some_and(|o| o.parse::<u64>().ok() != Some(k)) {
+            if params
+                .get("only")
+                .is_some_and(|o| o.parse::<u64>().ok() != Some(k))
+            {
                 continue;
             }
-            let Some(out) = run_e2e(&mut Rng::new(hseed), &mut ps, &E2eParams { churn: false }, k) else {
+            let Some(out) = run_e2e(
+                &mut Rng::new(hseed),
+                &mut ps,
+                &E2eParams { churn: false },
+                k,
+            ) else {
                 rep.inconclusive("cannot build a tokio runtime");
                 break;
             };
             if let Some(p) = &out.problem {
                 problems += 1;
-                rep.count(&format!("e2e-problem:{}", p.split(':').next().unwrap_or("")));
+                rep.count(&format!(
+                    "e2e-problem:{}",
+                    p.split(':').next().unwrap_or("")
+                ));
                 eprintln!("[C19 e2e {}] {}", hseed, p);
             }
             e2e_counts(&mut rep, &out);
@@ -2808,11 +5004,23 @@ fn run() {
                 judge_station_c19(&mut rep, &mut ps, &out, i, hseed);
             }
             if rep.want_sample() && k % 5 == 1 {
-                rep.sample(Json::obj(vec![("kind", Json::s("e2e")), ("history_seed", Json::Int(hseed as i128)), ("script", Json::strs(out.steps.iter().cloned())), ("stations", Json::strs(out.stations.iter().map(|s| format!("policy={} messages={}", policy_name(s.policy), s.msgs.len()))))]));
+                rep.sample(Json::obj(vec![
+                    ("kind", Json::s("e2e")),
+                    ("history_seed", Json::Int(hseed as i128)),
+                    ("script", Json::strs(out.steps.iter().cloned())),
+                    (
+                        "stations",
+                        Json::strs(out.stations.iter().map(|s| {
+                            format!("policy={} messages={}", policy_name(s.policy), s.msgs.len())
+                        })),
+                    ),
+                ]));
             }
         }
         if problems * 2 > n.max(1) {
-            rep.inconclusive("more than half of the e2e histories hit a watchdog / harness problem");
+            rep.inconclusive(
+                "more than half of the e2e histories hit a watchdog / harness problem",
+            );
         }
     }
     let _ = rep.finish();
